@@ -1,45 +1,1616 @@
 """C06 — the performance model reproduces its table and never extrapolates.
 
+All rules but R1 are decided on *values that flow*, not on the spelling of one
+function: the functions involved are executed symbolically (section "Value flow"
+below: locals replaced by what they were bound to, every branch a path condition,
+resolved helpers / closures / properties / callable objects inlined, loops over
+literal tables unrolled, other loops summarised by one symbolic iteration), and
+the path conditions are evaluated on explicit scenarios (each flight rule, each
+symbolic mass, the seven points of the ROCD axis around the tolerance, sample
+PTF rows).  A form the engine or a recogniser cannot follow is UNDECIDED, never
+a violation.
+
 R1  reciprocal constants (constant folding over exact rationals): for every
     pair X_TO_Y / Y_TO_X in units.py the folded product is exactly 1 (this
-    includes METERS_TO_FL · FL_TO_METERS).
-R2  no extrapolation switch (zero-expected, positive control): every
-    interpolation on the evaluate path is scipy `interpn` without
-    bounds_error= / fill_value=; no clamping interpolation (np.interp) and no
-    clip of the query state on the way.
-R3  load-time validation present: the model's after-validator builds the
-    PerformanceTable, whose __post_init__ reaches the mass-count check, the
-    three coverage checks and the six FL-only checks, each ending in raise;
-    nothing swallows them.
-R4  symbolic masses 'min'/'max' mean the table's extreme masses.
-R5  PTF -> table role agreement (T-ROLE): each generated row pairs
-    ptf.<m>_mass with the columns of the same <m> where the phase record has
-    them; PTFData.load converts each field with the conversion its unit
-    demands and reads the columns in order; rows are skipped only for the
-    documented reasons.
-R6  phase selection and sub-table partition: CLIMB/CRUISE/DESCEND select the
-    positive/zero/negative ROCD sub-table, the three filters partition the
-    ROCD axis with one tolerance, altitude is converted with METERS_TO_FL.
-R7  coordinate <-> value ordering agreement in the interpolator: value arrays
-    are laid out in the order of the (sorted) coordinate arrays in both
-    branches.
+    includes METERS_TO_FL · FL_TO_METERS); one flight level is 100 ft.
+R2  no extrapolation (also C02-R10, C17-R6; positive controls).  On every path
+    from evaluate() down: each output of the returned Performance is the result
+    of scipy `interpn` with bounds checking left on (no bounds_error=False /
+    fill_value), linear, over the grid attribute and the value-table attribute
+    of one and the same interpolator object, one table per output; the query
+    point's altitude component is the state's altitude times a constant and its
+    mass component the state's mass or the table's own extreme mass -- no
+    min/max/clip/round in between, whichever function each piece sits in; no
+    routine that answers outside its data (np.interp, np.clip, interp1d, ...)
+    is called on the path.
+R3  load-time validation.  (a) a validator of the model builds the performance
+    table on every path, outside any try/except, and keeps it where evaluate()
+    reads it; (b) every normal path through the table's initialisation has
+    established -- by a test whose other branch leaves by raise -- the mass
+    count (1 for an all-negative table, 3 otherwise), #rows = #FL x #mass for the
+    zero / positive / negative ROCD sub-tables and the six "depends on FL only"
+    facts, recognised as polynomial identities over row / distinct-value counts
+    (len, nunique, unique, drop_duplicates, groupby ...) of sub-tables classified
+    by evaluating their row masks on the ROCD axis; the tests may sit in nested
+    closures, module helpers, bool helpers, loops over literal tables.  A check
+    weakened to an inequality, skipped by an early return or swallowed by a
+    handler is a violation.
+R4  symbolic masses: for aircraft_mass = 'min' / 'max' / a number, the paths
+    taken (path conditions evaluated for that value) interpolate at the lowest /
+    highest entry of the table's mass list / the number itself (evaluated on a
+    sample list; first/last element only counts when every constructor of the
+    table passes an ascending list).
+R5  PTF -> records -> table.  build_performance_table: every generated row gives
+    each column (as named by the column list returned with the rows) a value of
+    that column's role, the mass-dependent ones of the mass the row is for; one
+    row per mass level the phase record has data for; every record field is
+    emitted.  PTFData.load: each record field is one number of the row times the
+    factor its unit demands (algebra over units.py), descent ROCD negated, and
+    that number is the one at its own position of its own block (evaluated on
+    sample rows, which also checks the number pattern); a well-formed row at
+    flight level 0 / 340 / 510 reaches all three record constructors (guards
+    evaluated on the sample rows: a truthiness test drops level 0).
+R6  phase selection and sub-tables: for each flight rule the paths taken use the
+    interpolator cached under / built from the rows of the documented sign of
+    ROCD; what is cached under a key is built from that key's rows of the same
+    table; the three row filters of subset() partition the ROCD axis with one
+    tolerance; the query's flight level is the altitude times exactly
+    METERS_TO_FL.
+R7  coordinate <-> value layout of the interpolator, per path through its
+    constructor: each grid axis is the ascending list of the distinct values of
+    one table column, in the order of the query point; a two-axis value table is
+    allocated (#FL, #mass) and filled at [index of the row's own FL, index of
+    the row's own mass] from the column its output names; a one-axis value table
+    is that column of the rows sorted (ascending) by the axis column; the query
+    point of __call__ has as many components as the grid has axes on every
+    compatible pair of branches.
 """
 
 from __future__ import annotations
 
 import ast
+import math
+import operator
 import re
+import re as _re
 from fractions import Fraction
 
-from ..algebra import module_constants
-from ..astutil import (ancestors, call_name, calls_in, guards_of, kwarg, norm, single_def_value, stmt_of,
-                       stores_to, walk_no_nested)
-from ..resolve import closure
+from ..algebra import AlgebraError, module_constants, normal_form, poly_equal
+from ..astutil import (assigned_names, calls_in, const_value, kwarg, norm, single_def_value, stores_to, walk_no_nested)
+from ..loader import AnalysisError, FunctionInfo, dotted_name
+from ..resolve import expr_class, resolve_call
 
 LEG = 'performance/models/legacy.py'
 PTF = 'parsers/ptf_reader.py'
 MK = 'commands/make_performance_model.py'
 UNITS = 'units.py'
+
+
+# ======================================================================================================
+# Value flow by structured symbolic execution (shared by the rules below, and by c02/c17 through them)
+# ======================================================================================================
+# A function is executed over *symbolic values*: ast expressions in which every local has been replaced by what
+# it was bound to, so that a value reads in terms of the root function's parameters, attributes of `self` and module
+# names, whichever helper / closure / temporary it went through.  Every branch forks the path and adds its condition
+# (value-substituted) to the path condition; resolved repository callees (nested closures, module helpers, methods
+# by the dynamic class of `self`, properties, callable objects) are inlined; loops over literal tables are unrolled,
+# other loops are summarised by one symbolic iteration with the loop-modified locals made unknown.  Calls that are
+# not inlined, stores into objects, constructor calls and raises are recorded per path as events.  Nothing of the
+# repository is run: the engine rewrites syntax.
+
+class Undecided(Exception):
+    """the engine (or a recogniser built on it) met a form it cannot follow"""
+
+
+def canon(e) -> str:
+    if e is None:
+        return '<nothing>'
+    return e if isinstance(e, str) else ' '.join(ast.unparse(e).split())
+
+
+def _name(s: str) -> ast.Name:
+    return ast.Name(id=s, ctx=ast.Load())
+
+
+def _call(fn: str, *args) -> ast.Call:
+    return ast.Call(func=_name(fn), args=list(args), keywords=[])
+
+
+def _const(v) -> ast.Constant:
+    return ast.Constant(value=v)
+
+
+def clone(n):
+    """copy of an ast tree over its syntactic fields only (the loader's parent links are not followed)"""
+    if isinstance(n, list):
+        return [clone(x) for x in n]
+    if not isinstance(n, ast.AST):
+        return n
+    return type(n)(**{k: clone(v) for k, v in ast.iter_fields(n)})
+
+
+def uncur(e):
+    """e with the `_cur(x)` markers (value an earlier loop iteration left in x) replaced by x"""
+    class T(ast.NodeTransformer):
+        def visit_Call(self, n):
+            n = self.generic_visit(n)
+            return n.args[0] if is_sym(n, '_cur') else n
+    return T().visit(clone(e))
+
+
+def is_sym(e, fn: str) -> bool:
+    """e is the engine's own marker call fn(...)"""
+    return isinstance(e, ast.Call) and isinstance(e.func, ast.Name) and e.func.id == fn
+
+
+DISPLAY = (ast.Tuple, ast.List, ast.Set)
+
+
+def _dotted_const(e) -> str | None:
+    """text of an enum-member-like constant A.B.C (last component upper case)"""
+    d = dotted_name(e) if isinstance(e, ast.Attribute) else None
+    if d and d.split('.')[-1].isupper() and not d.startswith('self.'):
+        return d
+    return None
+
+
+def distinct_consts(a, b) -> bool | None:
+    """True/False when a and b are constants known to differ / to be the same; None when unknown"""
+    if isinstance(a, ast.Constant) and isinstance(b, ast.Constant):
+        return not (type(a.value) is type(b.value) and a.value == b.value) if not (
+            isinstance(a.value, (int, float)) and isinstance(b.value, (int, float))) else a.value != b.value
+    da, db = _dotted_const(a), _dotted_const(b)
+    if da and db and da.rsplit('.', 1)[0] == db.rsplit('.', 1)[0]:
+        return da != db
+    return None
+
+
+def simp(n: ast.expr) -> ast.expr:
+    """one level of constant folding on literal structure (children are already simplified)"""
+    if isinstance(n, ast.Subscript) and not isinstance(getattr(n, 'ctx', None), ast.Store):
+        v, s = n.value, n.slice
+        if isinstance(v, (ast.Tuple, ast.List)) and isinstance(s, ast.Constant) and isinstance(s.value, int) \
+                and not isinstance(s.value, bool) and -len(v.elts) <= s.value < len(v.elts) \
+                and not any(isinstance(x, ast.Starred) for x in v.elts):
+            return v.elts[s.value]
+        if isinstance(v, ast.Dict) and None not in v.keys and (isinstance(s, ast.Constant) or _dotted_const(s)):
+            for k, val in zip(v.keys, v.values):
+                if distinct_consts(k, s) is False:
+                    return val
+    elif isinstance(n, ast.Call):
+        f, a = n.func, n.args
+        if isinstance(f, ast.Name) and not n.keywords:
+            if f.id == 'len' and len(a) == 1 and isinstance(a[0], DISPLAY + (ast.Dict,)) \
+                    and not any(isinstance(x, ast.Starred) for x in getattr(a[0], 'elts', [])):
+                return _const(len(a[0].elts) if not isinstance(a[0], ast.Dict) else len(a[0].keys))
+            if f.id in ('list', 'tuple') and len(a) == 1 and isinstance(a[0], (ast.Tuple, ast.List)):
+                return (ast.List if f.id == 'list' else ast.Tuple)(elts=list(a[0].elts), ctx=ast.Load())
+            if f.id in ('list', 'tuple') and len(a) == 1 and isinstance(a[0], ast.Dict) and None not in a[0].keys:
+                return (ast.List if f.id == 'list' else ast.Tuple)(elts=list(a[0].keys), ctx=ast.Load())
+            if f.id == 'getattr' and len(a) == 2 and isinstance(a[1], ast.Constant) and isinstance(a[1].value, str):
+                return ast.Attribute(value=a[0], attr=a[1].value, ctx=ast.Load())
+            if f.id == 'zip' and a and all(isinstance(x, (ast.Tuple, ast.List)) for x in a):
+                m = min(len(x.elts) for x in a)
+                return ast.List(elts=[ast.Tuple(elts=[x.elts[i] for x in a], ctx=ast.Load()) for i in range(m)], ctx=ast.Load())
+            if f.id == 'enumerate' and len(a) == 1 and isinstance(a[0], (ast.Tuple, ast.List)):
+                return ast.List(elts=[ast.Tuple(elts=[_const(i), x], ctx=ast.Load()) for i, x in enumerate(a[0].elts)],
+                                ctx=ast.Load())
+            if f.id == 'dict' and not a:
+                return ast.Dict(keys=[], values=[])
+        if isinstance(f, ast.Name) and f.id == 'dict' and not a and n.keywords and all(k.arg for k in n.keywords):
+            return ast.Dict(keys=[_const(k.arg) for k in n.keywords], values=[k.value for k in n.keywords])
+        if isinstance(f, ast.Attribute) and not n.keywords:
+            o = f.value
+            if f.attr == 'index' and isinstance(o, (ast.Tuple, ast.List)) and len(a) == 1 and isinstance(a[0], ast.Constant):
+                for i, x in enumerate(o.elts):
+                    if distinct_consts(x, a[0]) is False:
+                        return _const(i)
+            if isinstance(o, ast.Dict) and None not in o.keys:
+                if f.attr == 'items' and not a:
+                    return ast.List(elts=[ast.Tuple(elts=[k, v], ctx=ast.Load()) for k, v in zip(o.keys, o.values)], ctx=ast.Load())
+                if f.attr == 'keys' and not a:
+                    return ast.List(elts=list(o.keys), ctx=ast.Load())
+                if f.attr == 'values' and not a:
+                    return ast.List(elts=list(o.values), ctx=ast.Load())
+                if f.attr == 'get' and a and (isinstance(a[0], ast.Constant) or _dotted_const(a[0])) \
+                        and all(distinct_consts(k, a[0]) is not None for k in o.keys):
+                    for k, v in zip(o.keys, o.values):
+                        if distinct_consts(k, a[0]) is False:
+                            return v
+                    return a[1] if len(a) > 1 else _const(None)
+    elif isinstance(n, ast.JoinedStr):
+        parts = []
+        for v in n.values:
+            if isinstance(v, ast.Constant):
+                parts.append(str(v.value))
+            elif isinstance(v, ast.FormattedValue) and isinstance(v.value, ast.Constant) and v.conversion == -1 \
+                    and v.format_spec is None and isinstance(v.value.value, str):
+                parts.append(v.value.value)
+            else:
+                return n
+        return _const(''.join(parts))
+    elif isinstance(n, ast.BinOp):
+        l, r = n.left, n.right
+        if isinstance(n.op, ast.Add):
+            if isinstance(l, ast.Constant) and isinstance(r, ast.Constant) and isinstance(l.value, str) and isinstance(r.value, str):
+                return _const(l.value + r.value)
+            if type(l) is type(r) and isinstance(l, (ast.List, ast.Tuple)):
+                return type(l)(elts=list(l.elts) + list(r.elts), ctx=ast.Load())
+    elif isinstance(n, ast.Compare) and len(n.ops) == 1:
+        l, op, r = n.left, n.ops[0], n.comparators[0]
+        if isinstance(op, (ast.Eq, ast.NotEq, ast.Is, ast.IsNot)):
+            d = distinct_consts(l, r)
+            if d is None and isinstance(op, (ast.Is, ast.IsNot)) and isinstance(r, ast.Constant) and r.value is None \
+                    and isinstance(l, DISPLAY + (ast.Dict, ast.JoinedStr, ast.Lambda, ast.ListComp, ast.DictComp)):
+                d = True
+            if d is not None:
+                return _const(d != isinstance(op, (ast.Eq, ast.Is)))
+        if isinstance(op, (ast.In, ast.NotIn)) and isinstance(r, DISPLAY) and (isinstance(l, ast.Constant) or _dotted_const(l)):
+            ds = [distinct_consts(l, x) for x in r.elts]
+            if any(d is False for d in ds):
+                return _const(isinstance(op, ast.In))
+            if all(d is True for d in ds):
+                return _const(isinstance(op, ast.NotIn))
+    elif isinstance(n, ast.UnaryOp) and isinstance(n.op, ast.Not) and isinstance(n.operand, ast.Constant):
+        return _const(not n.operand.value)
+    elif isinstance(n, ast.BoolOp):
+        is_and = isinstance(n.op, ast.And)
+        keep = []
+        for v in n.values:
+            if isinstance(v, ast.Constant):
+                if bool(v.value) != is_and:
+                    return v if not keep else ast.BoolOp(op=n.op, values=keep + [v])
+                continue
+            keep.append(v)
+        if not keep:
+            return n.values[-1]
+        return keep[0] if len(keep) == 1 else ast.BoolOp(op=n.op, values=keep)
+    elif isinstance(n, ast.IfExp) and isinstance(n.test, ast.Constant):
+        return n.body if n.test.value else n.orelse
+    return n
+
+
+class Event:
+    __slots__ = ('kind', 'fi', 'node', 'name', 'value', 'args', 'kwargs', 'target', 'pc', 'prot', 'loops', 'self_val', 'cls')
+
+    def __init__(self, kind, fr, node, st, **kw):
+        self.kind, self.fi, self.node = kind, fr.fi, node
+        self.pc, self.prot, self.loops = st.pc, st.prot, st.loops
+        self.self_val = fr.self_val
+        self.name = self.value = self.target = self.cls = None
+        self.args, self.kwargs = [], {}
+        for k, v in kw.items():
+            setattr(self, k, v)
+
+    @property
+    def line(self):
+        return getattr(self.node, 'lineno', 0) or 0
+
+    def arg(self, pos: int, name: str):
+        if pos is not None and len(self.args) > pos:
+            return self.args[pos]
+        return self.kwargs.get(name)
+
+
+class St:
+    """one path: locals of the current frame, object stores made on the path, path condition, events"""
+    __slots__ = ('env', 'heap', 'pc', 'events', 'prot', 'loops', 'known')
+
+    def __init__(self, env=None, heap=None, pc=(), events=(), prot=0, loops=(), known=None):
+        self.env, self.heap, self.pc, self.events, self.prot, self.loops = env or {}, heap or {}, pc, events, prot, loops
+        self.known = known if known is not None else {}      # text of a decided condition -> polarity
+
+    def but(self, **kw):
+        s = St(self.env, self.heap, self.pc, self.events, self.prot, self.loops, self.known)
+        for k, v in kw.items():
+            setattr(s, k, v)
+        if 'pc' in kw and 'known' not in kw:
+            s.known = {canon(c): p for c, p in s.pc} if len(s.pc) != len(self.pc) + 1 or s.pc[:-1] != self.pc \
+                else {**self.known, canon(s.pc[-1][0]): s.pc[-1][1]}
+        return s
+
+    def bind(self, name, val):
+        e = dict(self.env)
+        e[name] = val
+        return self.but(env=e)
+
+    def store(self, key, val):
+        h = dict(self.heap)
+        h[key] = val
+        return self.but(heap=h)
+
+    def event(self, ev):
+        return self.but(events=self.events + (ev,))
+
+    def lit(self, cond: ast.expr):
+        """polarity of a condition the path has already decided, else None"""
+        return self.known.get(canon(cond))
+
+
+class Fr:
+    __slots__ = ('fi', 'cls', 'self_val', 'stack')
+
+    def __init__(self, fi, cls, self_val, stack):
+        self.fi, self.cls, self.self_val, self.stack = fi, cls, self_val, stack
+
+
+class _Closure:
+    def __init__(self, fi):
+        self.fi = fi
+
+
+def _assigned_in(stmts) -> set[str]:
+    out = set()
+    for s in stmts:
+        for x in walk_no_nested(s):
+            if isinstance(x, ast.Name) and isinstance(x.ctx, (ast.Store, ast.Del)):
+                out.add(x.id)
+    return out
+
+
+_MUTATORS = {'append', 'extend', 'insert', 'update', 'setdefault', 'add', 'pop', 'remove', 'clear', 'sort', 'reverse'}
+
+
+class Engine:
+    def __init__(self, prog, cap: int = 6000, max_depth: int = 10, inline=None, read_back: bool = True):
+        self.prog = prog
+        self.read_back = read_back      # a field stored on the path reads back as the stored value
+        self.cap = cap
+        self.max_depth = max_depth
+        self.inline = inline or (lambda fi: fi.file.startswith('src/'))
+        self.ctors: list = []          # (ClassInfo, Event) of every constructor call met
+        # resolution of *source* nodes does not depend on the engine instance: shared over the program
+        self._class_cache: dict = prog.__dict__.setdefault('_c06_class_cache', {})
+        self._resolve_cache: dict = prog.__dict__.setdefault('_c06_resolve_cache', {})
+        self.n = 0
+
+    # ---------------------------------------------------------------- entry
+    def run(self, fi, self_cls=None, args: dict | None = None, self_val=None, env: dict | None = None):
+        """outcomes [(kind, value, St)] of fi with symbolic parameters; kind in fall/return/raise"""
+        e = dict(env or {})
+        for p in fi.params:
+            e.setdefault(p, _name(p))
+        e.update(args or {})
+        sv = self_val
+        if sv is None and fi.params and fi.params[0] in ('self', 'cls'):
+            sv = e[fi.params[0]]
+        fr = Fr(fi, self_cls or fi.cls, sv, (fi.qualname,))
+        outs = self.block(fi.node.body, St(env=e), fr)
+        return [(('return' if k == 'fall' else k), (v if k != 'fall' else _const(None)), s) for k, v, s in outs]
+
+    def _tick(self, k=1):
+        self.n += k
+        if self.n > self.cap * 40:
+            raise Undecided('too many paths')
+
+    # ---------------------------------------------------------------- conditions
+    def assume(self, st: St, cond: ast.expr, pol: bool) -> St | None:
+        if isinstance(cond, ast.Constant):
+            return st if bool(cond.value) == pol else None
+        if isinstance(cond, ast.UnaryOp) and isinstance(cond.op, ast.Not):
+            return self.assume(st, cond.operand, not pol)
+        if isinstance(cond, ast.BoolOp) and isinstance(cond.op, ast.And) == pol:
+            for v in cond.values:
+                st = self.assume(st, v, pol)
+                if st is None:
+                    return None
+            return st
+        known = st.lit(cond)
+        if known is not None:
+            return st if known == pol else None
+        if isinstance(cond, ast.Compare) and len(cond.ops) == 1 and isinstance(cond.ops[0], (ast.Eq, ast.Is)):
+            l, r = canon(cond.left), cond.comparators[0]
+            for c, p in st.pc:
+                if p and isinstance(c, ast.Compare) and len(c.ops) == 1 and isinstance(c.ops[0], (ast.Eq, ast.Is)) \
+                        and canon(c.left) == l:
+                    d = distinct_consts(c.comparators[0], r)
+                    if d is True:
+                        return st if not pol else None
+                    if d is False:
+                        return st if pol else None
+        return st.but(pc=st.pc + ((cond, pol),))
+
+    def fork(self, st: St, cond: ast.expr):
+        out = []
+        for pol in (True, False):
+            s = self.assume(st, cond, pol)
+            if s is not None:
+                out.append((pol, s))
+        return out
+
+    # ---------------------------------------------------------------- resolution helpers
+    def class_named(self, m, e):
+        try:
+            return self.prog.resolve_class_expr(m, e)
+        except Exception:
+            return None
+
+    def class_of(self, fr: Fr, e: ast.expr, depth=0):
+        """static class of the *source* expression e in frame fr (annotations, constructor assignments, element
+        stores of a container attribute, return annotations / returned expressions of resolved callees)"""
+        if depth > 4:
+            return None
+        if isinstance(e, ast.Name) and e.id in ('self', 'cls') and fr.cls is not None:
+            return fr.cls
+        key = (fr.fi.file, fr.fi.qualname, id(e), fr.cls.name if fr.cls is not None else None)
+        if key not in self._class_cache:
+            self._class_cache[key] = None
+            self._class_cache[key] = self._class_of(fr, e, depth)
+        return self._class_cache[key]
+
+    def _class_of(self, fr: Fr, e: ast.expr, depth):
+        c = None
+        try:
+            c = expr_class(self.prog, fr.fi, e)
+        except Exception:
+            c = None
+        if c is not None:
+            return c
+        if isinstance(e, ast.Subscript):
+            b = e.value
+            if isinstance(b, ast.Attribute):
+                owner = self.class_of(fr, b.value, depth + 1)
+                if owner is not None:
+                    ann = owner.all_fields().get(b.attr)
+                    if isinstance(ann, ast.Subscript):
+                        parts = ann.slice.elts if isinstance(ann.slice, ast.Tuple) else [ann.slice]
+                        r = self.class_named(owner.module, parts[-1])
+                        if r is not None:
+                            return r
+                    for k in owner.mro():
+                        for meth in k.methods.values():
+                            for n in walk_no_nested(meth.node):
+                                if isinstance(n, ast.Assign) and isinstance(n.value, ast.Call):
+                                    for t in n.targets:
+                                        if isinstance(t, ast.Subscript) and isinstance(t.value, ast.Attribute) \
+                                                and t.value.attr == b.attr and dotted_name(t.value.value) == 'self':
+                                            r = self.class_named(k.module, n.value.func)
+                                            if r is not None:
+                                                return r
+            return None
+        if isinstance(e, ast.Name):
+            v = single_def_value(fr.fi.node, e.id)
+            return self.class_of(fr, v, depth + 1) if v is not None else None
+        if isinstance(e, ast.Call):
+            callee = self.resolve(fr, e)
+            if callee is not None:
+                sub = Fr(callee, callee.cls, None, fr.stack)
+                for n in walk_no_nested(callee.node):
+                    if isinstance(n, ast.Return) and n.value is not None:
+                        r = self.class_of(sub, n.value, depth + 1)
+                        if r is not None:
+                            return r
+        return None
+
+    def resolve(self, fr: Fr, c: ast.Call):
+        """repository function a *source* call resolves to (methods by the dynamic class of self)"""
+        key = (id(c), fr.fi.qualname, fr.cls.name if fr.cls is not None else None)
+        if key not in self._resolve_cache:
+            self._resolve_cache[key] = (c, self._resolve(fr, c))
+        return self._resolve_cache[key][1]
+
+    def _resolve(self, fr: Fr, c: ast.Call):
+        f = c.func
+        if isinstance(f, ast.Attribute) and isinstance(f.value, ast.Name) and f.value.id in ('self', 'cls') and fr.cls is not None:
+            m = fr.cls.find_method(f.attr)
+            if m is not None:
+                return m
+        try:
+            r = resolve_call(self.prog, fr.fi, c)
+        except Exception:
+            r = None
+        if r is not None:
+            return r
+        if isinstance(f, ast.Name) and (f.id in ('self', 'cls') or self.class_named(fr.fi.module, f) is not None):
+            return None
+        k = self.class_of(fr, f)        # a callable object
+        if k is not None:
+            return k.find_method('__call__')
+        return None
+
+    def ext_name(self, fr: Fr, f: ast.expr) -> str | None:
+        """canonical dotted name of an external callee through the module's imports (np.interp -> numpy.interp)"""
+        d = dotted_name(f)
+        if not d:
+            return None
+        head, _, rest = d.partition('.')
+        imp = fr.fi.module.imports.get(head)
+        if imp:
+            return imp + ('.' + rest if rest else '')
+        return d
+
+    # ---------------------------------------------------------------- expressions
+    def ev(self, e: ast.expr, st: St, fr: Fr, raises: list) -> list:
+        """[(value, St)] -- one entry per path evaluating e forks into"""
+        self._tick()
+        if e is None:
+            return [(None, st)]
+        if isinstance(e, ast.Constant):
+            return [(e, st)]
+        if isinstance(e, ast.Name):
+            v = st.env.get(e.id)
+            if v is None or isinstance(v, _Closure):
+                return [(_name(e.id), st)]
+            return [(v, st)]
+        if isinstance(e, ast.Attribute):
+            out = []
+            for v, s in self.ev(e.value, st, fr, raises):
+                out += self._attr(e, v, s, fr, raises)
+            return out
+        if isinstance(e, ast.Subscript):
+            out = []
+            for v, s in self.ev(e.value, st, fr, raises):
+                for sl, s2 in self.ev(e.slice, s, fr, raises):
+                    if isinstance(v, ast.Name) and v.id not in s2.env:
+                        v = self.const_table(v, fr)
+                    out += self._subscript(v, sl, s2)
+            return out
+        if isinstance(e, ast.Call):
+            return self._call(e, st, fr, raises)
+        if isinstance(e, ast.IfExp):
+            out = []
+            for t, s in self.ev(e.test, st, fr, raises):
+                for pol, s2 in self.fork(s, t):
+                    out += self.ev(e.body if pol else e.orelse, s2, fr, raises)
+            return out
+        if isinstance(e, ast.NamedExpr):
+            return [(v, s.bind(e.target.id, v)) for v, s in self.ev(e.value, st, fr, raises)]
+        if isinstance(e, (ast.ListComp, ast.SetComp, ast.DictComp)) and len(e.generators) == 1 and not e.generators[0].ifs \
+                and not e.generators[0].is_async:
+            # a comprehension over a literal table is the display of its elements
+            g = e.generators[0]
+            out = []
+            for it, s1 in self.ev(g.iter, st, fr, raises):
+                elems = self.literal_elements(self.const_table(it, fr))
+                if elems is None or len(elems) > 24:
+                    out.append((self._subst(e, s1), s1))
+                    continue
+                saved = {n: s1.env.get(n) for n in assigned_names(g.target)}
+                combos = [([], s1)]
+                for el in elems:
+                    nxt = []
+                    for done, s2 in combos:
+                        for s3 in self._target(g.target, el, s2, fr, raises, e):
+                            if isinstance(e, ast.DictComp):
+                                for k, s4 in self.ev(e.key, s3, fr, raises):
+                                    for v, s5 in self.ev(e.value, s4, fr, raises):
+                                        nxt.append((done + [(k, v)], s5))
+                            else:
+                                for v, s4 in self.ev(e.elt, s3, fr, raises):
+                                    nxt.append((done + [v], s4))
+                    combos = nxt
+                for done, s2 in combos:
+                    env2 = dict(s2.env)
+                    for n, v in saved.items():
+                        if v is None:
+                            env2.pop(n, None)
+                        else:
+                            env2[n] = v
+                    s2 = s2.but(env=env2)
+                    if isinstance(e, ast.DictComp):
+                        out.append((ast.Dict(keys=[k for k, _ in done], values=[v for _, v in done]), s2))
+                    else:
+                        out.append(((ast.List if isinstance(e, ast.ListComp) else ast.Set)(elts=done, ctx=ast.Load())
+                                    if isinstance(e, ast.ListComp) else ast.Set(elts=done), s2))
+            return out
+        if isinstance(e, (ast.Lambda, ast.ListComp, ast.SetComp, ast.GeneratorExp, ast.DictComp)):
+            return [(self._subst(e, st), st)]
+        if isinstance(e, (ast.Await, ast.Yield, ast.YieldFrom)):
+            return [(e, st)]
+        # generic: evaluate the child expressions left to right, rebuild, fold
+        fields = []
+        for name, val in ast.iter_fields(e):
+            if isinstance(val, ast.expr):
+                fields.append((name, False, [val]))
+            elif isinstance(val, list) and val and all(isinstance(x, (ast.expr, ast.keyword)) or x is None for x in val):
+                fields.append((name, True, val))
+        combos = [({}, st)]
+        for name, is_list, vals in fields:
+            nxt = []
+            for acc, s in combos:
+                parts = [([], s)]
+                for x in vals:
+                    np_ = []
+                    for done, s1 in parts:
+                        if x is None:
+                            np_.append((done + [None], s1))
+                        elif isinstance(x, ast.keyword):
+                            for v, s2 in self.ev(x.value, s1, fr, raises):
+                                np_.append((done + [ast.keyword(arg=x.arg, value=v)], s2))
+                        else:
+                            for v, s2 in self.ev(x, s1, fr, raises):
+                                np_.append((done + [v], s2))
+                    parts = np_
+                for done, s1 in parts:
+                    a2 = dict(acc)
+                    a2[name] = done if is_list else done[0]
+                    nxt.append((a2, s1))
+            combos = nxt
+        out = []
+        for acc, s in combos:
+            kw = {k: v for k, v in ast.iter_fields(e)}
+            kw.update(acc)
+            out.append((simp(type(e)(**kw)), s))
+        return out
+
+    def _subst(self, e, st: St, bound=frozenset()):
+        """replace free local names in e (a lambda / comprehension) by their values; nothing is inlined"""
+        env = st.env
+
+        class T(ast.NodeTransformer):
+            def __init__(self, bound):
+                self.bound = set(bound)
+
+            def visit_Name(self, n):
+                if isinstance(n.ctx, ast.Load) and n.id not in self.bound:
+                    v = env.get(n.id)
+                    if v is not None and not isinstance(v, _Closure):
+                        return v
+                return n
+
+            def _scoped(self, n, names):
+                t = T(self.bound | names)
+                return t.generic_visit(n)
+
+            def visit_Lambda(self, n):
+                a = n.args
+                names = {x.arg for x in a.posonlyargs + a.args + a.kwonlyargs} | \
+                    ({a.vararg.arg} if a.vararg else set()) | ({a.kwarg.arg} if a.kwarg else set())
+                return self._scoped(n, names)
+
+            def _comp(self, n):
+                names = set()
+                for g in n.generators:
+                    names |= set(assigned_names(g.target))
+                return self._scoped(n, names)
+            visit_ListComp = visit_SetComp = visit_GeneratorExp = visit_DictComp = _comp
+        return T(bound).visit(clone(e))
+
+    def _heap(self, node, st):
+        if not st.heap or not self.read_back:
+            return node
+        tail = ('.' + node.attr) if isinstance(node, ast.Attribute) else ']'
+        if not any(k.endswith(tail) for k in st.heap):
+            return node
+        v = st.heap.get(canon(node))
+        return v if v is not None else node
+
+    def _attr(self, e, v, st, fr, raises):
+        # property of a repository class: inline the getter
+        k = None
+        if isinstance(e.value, ast.Name) and e.value.id in ('self', 'cls') and fr.cls is not None:
+            k = fr.cls
+        else:
+            try:
+                k = self.class_of(fr, e.value)
+            except Exception:
+                k = None
+        if k is None and isinstance(e.value, ast.Name) and e.value.id not in st.env:
+            k = self.class_named(fr.fi.module, e.value)       # ClassName.CONSTANT
+        if k is not None and e.attr.isupper():
+            # a literal table in the class body (ClassVar): mutable displays are not folded by the loader
+            t = self.const_table(ast.Attribute(value=_name('cls'), attr=e.attr, ctx=ast.Load()), Fr(fr.fi, k, None, fr.stack))
+            if isinstance(t, (ast.Tuple, ast.List, ast.Set, ast.Dict)):
+                return [(t, st)]
+        if k is not None:
+            m = k.find_method(e.attr)
+            if m is not None and any(d.split('.')[-1] in ('property', 'cached_property') for d in m.decorators()) \
+                    and self._may_inline(m, fr):
+                return self._inline(m, {m.params[0]: v} if m.params else {}, v, k if k.is_subclass_of(m.cls.name) else m.cls,
+                                    st, fr, raises)
+        # field of an object constructed on this path: DataClass(f=x, ...).f is x
+        if isinstance(v, ast.Call) and isinstance(v.func, ast.Name) and any(kw.arg == e.attr for kw in v.keywords):
+            kc = self.class_named(fr.fi.module, v.func) or next((c for c, _ in self.ctors if c.name == v.func.id), None)
+            if kc is not None and any(d.split('(')[0].split('.')[-1] == 'dataclass' for d in
+                                      (ast.unparse(x) for x in kc.node.decorator_list)) \
+                    and e.attr in kc.all_fields() and not self._init_stores(kc, e.attr):
+                return [(next(kw.value for kw in v.keywords if kw.arg == e.attr), st)]
+        node = simp(ast.Attribute(value=v, attr=e.attr, ctx=ast.Load()))
+        return [(self._heap(node, st), st)]
+
+    def _init_stores(self, k, attr) -> bool:
+        pi = k.find_method('__post_init__')
+        return pi is not None and any(isinstance(t, ast.Attribute) and t.attr == attr for t, _, _ in stores_to(pi.node))
+
+    def _subscript(self, v, sl, st):
+        node = ast.Subscript(value=v, slice=sl, ctx=ast.Load())
+        r = simp(node)
+        if r is node and isinstance(v, ast.Dict) and v.keys and None not in v.keys \
+                and all(isinstance(k, ast.Constant) or _dotted_const(k) for k in v.keys) \
+                and not isinstance(sl, (ast.Constant, ast.Slice)):
+            # dispatch table subscripted by a symbolic key: one path per entry
+            out = []
+            for k, val in zip(v.keys, v.values):
+                s = self.assume(st, ast.Compare(left=sl, ops=[ast.Eq()], comparators=[k]), True)
+                if s is not None:
+                    out.append((val, s))
+            return out
+        return [(self._heap(r, st), st)]
+
+    # ---------------------------------------------------------------- calls
+    def _may_inline(self, callee, fr):
+        if callee is None or not self.inline(callee) or callee.qualname in fr.stack or len(fr.stack) >= self.max_depth:
+            return False
+        if any(isinstance(n, (ast.Yield, ast.YieldFrom)) for n in walk_no_nested(callee.node)):
+            return False
+        return True
+
+    def _bind_params(self, callee, pos, kw, first):
+        a = callee.node.args
+        names = [x.arg for x in a.posonlyargs + a.args]
+        env = {}
+        if first is not None and names:
+            env[names[0]] = first
+            names = names[1:]
+        pos = list(pos)
+        for nme in names:
+            if pos:
+                env[nme] = pos.pop(0)
+        if a.vararg:
+            env[a.vararg.arg] = ast.Tuple(elts=pos, ctx=ast.Load())
+        kw = dict(kw)
+        for nme in names + [x.arg for x in a.kwonlyargs]:
+            if nme in kw and nme not in env:
+                env[nme] = kw.pop(nme)
+        if a.kwarg:
+            env[a.kwarg.arg] = ast.Dict(keys=[_const(k) for k in kw], values=list(kw.values()))
+        allpos = [x.arg for x in a.posonlyargs + a.args]
+        for nme, d in zip(allpos[len(allpos) - len(a.defaults):], a.defaults):
+            env.setdefault(nme, d)
+        for x, d in zip(a.kwonlyargs, a.kw_defaults):
+            if d is not None:
+                env.setdefault(x.arg, d)
+        for nme in allpos + [x.arg for x in a.kwonlyargs]:
+            env.setdefault(nme, _call('_param', _const(nme)))
+        return env
+
+    def _inline(self, callee, env, self_val, cls, st, fr, raises, closure_env=None):
+        e = dict(closure_env or {})
+        e.update(env)
+        sub = Fr(callee, cls, self_val, fr.stack + (callee.qualname,))
+        saved = st.env
+        outs = self.block(callee.node.body, st.but(env=e), sub)
+        res = []
+        for k, v, s in outs:
+            s = s.but(env=saved)
+            if k in ('fall', 'return'):
+                res.append((v if (k == 'return' and v is not None) else _const(None), s))
+            elif k == 'raise':
+                raises.append(('raise', v, s))
+        return res
+
+    def _args(self, c: ast.Call, st, fr, raises):
+        """[(positional values, keyword values, St)]"""
+        combos = [([], {}, st)]
+        for a in c.args:
+            nxt = []
+            for pos, kw, s in combos:
+                inner = a.value if isinstance(a, ast.Starred) else a
+                for v, s2 in self.ev(inner, s, fr, raises):
+                    if isinstance(a, ast.Starred):
+                        if isinstance(v, (ast.Tuple, ast.List)):
+                            nxt.append((pos + list(v.elts), kw, s2))
+                        else:
+                            nxt.append((pos + [ast.Starred(value=v, ctx=ast.Load())], kw, s2))
+                    else:
+                        nxt.append((pos + [v], kw, s2))
+            combos = nxt
+        for k in c.keywords:
+            nxt = []
+            for pos, kw, s in combos:
+                for v, s2 in self.ev(k.value, s, fr, raises):
+                    kw2 = dict(kw)
+                    if k.arg is None:
+                        if isinstance(v, ast.Dict) and all(isinstance(x, ast.Constant) and isinstance(x.value, str) for x in v.keys):
+                            for kk, vv in zip(v.keys, v.values):
+                                kw2[kk.value] = vv
+                        else:
+                            kw2['**' + str(len(kw2))] = v
+                    else:
+                        kw2[k.arg] = v
+                    nxt.append((pos, kw2, s2))
+            combos = nxt
+        return combos
+
+    def _call(self, c: ast.Call, st, fr, raises):
+        f = c.func
+        out = []
+        # receiver / callee value
+        recv_paths = [(None, st)]
+        if isinstance(f, ast.Attribute):
+            recv_paths = self.ev(f.value, st, fr, raises)
+        elif not isinstance(f, ast.Name):
+            recv_paths = self.ev(f, st, fr, raises)
+        for recv, s0 in recv_paths:
+            for pos, kw, s in self._args(c, s0, fr, raises):
+                out += self._call1(c, recv, pos, kw, s, fr, raises)
+        return out
+
+    def _call1(self, c, recv, pos, kw, st, fr, raises):
+        f = c.func
+        callee = None
+        closure_env = None
+        if isinstance(f, ast.Name) and isinstance(st.env.get(f.id), _Closure):
+            callee, closure_env = st.env[f.id].fi, st.env
+        elif isinstance(f, ast.Name) and f.id in st.env and isinstance(st.env[f.id], ast.Lambda) and not kw \
+                and not any(isinstance(x, ast.Starred) for x in pos):
+            lam = st.env[f.id]
+            names = [x.arg for x in lam.args.args]
+            if len(names) == len(pos):
+                return self.ev(lam.body, st.but(env={**st.env, **dict(zip(names, pos))}), fr, raises)
+        else:
+            callee = self.resolve(fr, c)
+        # the class of a callable *value* (an object constructed on this path)
+        if callee is None and recv is not None and not isinstance(f, ast.Attribute) and isinstance(recv, ast.Call):
+            k = self.class_named(fr.fi.module, recv.func)
+            if k is not None:
+                callee = k.find_method('__call__')
+        # constructor?
+        k = None
+        if isinstance(f, ast.Name) and f.id == 'cls' and fr.cls is not None and 'cls' in fr.fi.params[:1]:
+            k = fr.cls
+        elif isinstance(f, (ast.Name, ast.Attribute)) and not (isinstance(f, ast.Name) and f.id in st.env):
+            k = self.class_named(fr.fi.module, f)
+        if k is not None:
+            val = ast.Call(func=_name(k.name), args=pos, keywords=[ast.keyword(arg=(None if n.startswith('**') else n), value=v)
+                                                                    for n, v in kw.items()])
+            ev = Event('ctor', fr, c, st, name=k.name, args=pos, kwargs=kw, value=val, cls=k)
+            self.ctors.append((k, ev))
+            return [(val, st.event(ev))]
+        if callee is not None and self._may_inline(callee, fr):
+            decs = [d.split('.')[-1].split('(')[0] for d in callee.decorators()]
+            is_method = callee.cls is not None and callee.qualname == f'{callee.cls.name}.{callee.name}'
+            first = None
+            cls = callee.cls
+            self_val = fr.self_val if closure_env is not None or not is_method else None
+            if closure_env is not None or (not is_method and '<locals>' in callee.qualname):
+                cls = fr.cls
+                self_val = fr.self_val
+            if is_method and 'staticmethod' not in decs:
+                if 'classmethod' in decs:
+                    owner = fr.cls if (isinstance(f, ast.Attribute) and isinstance(f.value, ast.Name)
+                                       and f.value.id in ('self', 'cls') and fr.cls is not None) else callee.cls
+                    first, cls, self_val = _name(owner.name), owner, _name(owner.name)
+                elif isinstance(f, ast.Attribute):
+                    if self.class_named(fr.fi.module, f.value) is not None and not (
+                            isinstance(f.value, ast.Name) and f.value.id in st.env):
+                        first = None            # Class.method(obj, ...): the object is the first positional
+                        self_val = pos[0] if pos else None
+                    else:
+                        first, self_val = recv, recv
+                    if isinstance(f.value, ast.Name) and f.value.id == 'self' and fr.cls is not None \
+                            and fr.cls.is_subclass_of(callee.cls.name):
+                        cls = fr.cls
+                elif callee.name == '__call__':
+                    if recv is None and isinstance(f, ast.Name):
+                        recv = st.env.get(f.id) if isinstance(st.env.get(f.id), ast.expr) else _name(f.id)
+                    first, self_val = recv, recv
+            env = self._bind_params(callee, pos, kw, first)
+            return self._inline(callee, env, self_val, cls, st, fr, raises, closure_env)
+        # not inlined: an event
+        if isinstance(f, ast.Attribute):
+            fv = ast.Attribute(value=recv, attr=f.attr, ctx=ast.Load())
+        elif isinstance(f, ast.Name):
+            v = st.env.get(f.id)
+            fv = v if isinstance(v, ast.expr) else _name(f.id)
+        else:
+            fv = recv
+        val = simp(ast.Call(func=fv, args=pos, keywords=[ast.keyword(arg=(None if n.startswith('**') else n), value=v)
+                                                          for n, v in kw.items()]))
+        if not isinstance(val, ast.Call):
+            return [(val, st)]
+        name = None
+        if isinstance(f, ast.Name):
+            name = None if f.id in st.env else (fr.fi.module.imports.get(f.id) or f.id)
+        elif isinstance(f, ast.Attribute):
+            d = dotted_name(f)
+            name = self.ext_name(fr, f) if d and d.split('.')[0] in fr.fi.module.imports and d.split('.')[0] not in st.env \
+                else '.' + f.attr
+        ev = Event('call', fr, c, st, name=name, args=pos, kwargs=kw, value=val,
+                   target=(recv if isinstance(f, ast.Attribute) else None))
+        return [(val, st.event(ev))]
+
+    # ---------------------------------------------------------------- statements
+    def block(self, stmts, st: St, fr: Fr):
+        outs, cur = [], [st]
+        for s in stmts:
+            nxt = []
+            for c in cur:
+                for k, v, s2 in self.stmt(s, c, fr):
+                    if k == 'fall':
+                        nxt.append(s2)
+                    else:
+                        outs.append((k, v, s2))
+            cur = nxt
+            if len(cur) + len(outs) > self.cap:
+                raise Undecided(f'more than {self.cap} paths through {fr.fi.qualname}')
+            if not cur:
+                break
+        return outs + [('fall', None, c) for c in cur]
+
+    def _target(self, t, val, st, fr, raises, node):
+        """bind value to an assignment target; returns [St]"""
+        if isinstance(t, ast.Name):
+            return [st.bind(t.id, val)]
+        if isinstance(t, (ast.Tuple, ast.List)):
+            n = len(t.elts)
+            if isinstance(val, (ast.Tuple, ast.List)) and len(val.elts) == n and not any(
+                    isinstance(x, ast.Starred) for x in list(t.elts) + list(val.elts)):
+                parts = list(val.elts)
+            elif any(isinstance(x, ast.Starred) for x in t.elts):
+                parts = [_call('_unpack', val, _const(i)) for i in range(n)]
+            else:
+                parts = [simp(ast.Subscript(value=val, slice=_const(i), ctx=ast.Load())) for i in range(n)]
+            cur = [st]
+            for x, p in zip(t.elts, parts):
+                x = x.value if isinstance(x, ast.Starred) else x
+                cur = [s2 for s in cur for s2 in self._target(x, p, s, fr, raises, node)]
+            return cur
+        if isinstance(t, ast.Attribute):
+            out = []
+            for b, s in self.ev(t.value, st, fr, raises):
+                tgt = ast.Attribute(value=b, attr=t.attr, ctx=ast.Load())
+                s = s.store(canon(tgt), val)
+                out.append(s.event(Event('store', fr, node, s, target=tgt, value=val)))
+            return out
+        if isinstance(t, ast.Subscript):
+            out = []
+            # element store into a local literal table: keep the table a literal
+            if isinstance(t.value, ast.Name) and isinstance(st.env.get(t.value.id), ast.Dict):
+                for sl, s in self.ev(t.slice, st, fr, raises):
+                    d = s.env[t.value.id]
+                    if isinstance(sl, ast.Constant) or _dotted_const(sl):
+                        keys, vals = list(d.keys), list(d.values)
+                        for i, k in enumerate(keys):
+                            if k is not None and distinct_consts(k, sl) is False:
+                                vals[i] = val
+                                break
+                        else:
+                            keys.append(sl)
+                            vals.append(val)
+                        out.append(s.bind(t.value.id, ast.Dict(keys=keys, values=vals)))
+                    else:
+                        out.append(s.bind(t.value.id, _call('_acc', _const(t.value.id))))
+                return out
+            for b, s in self._ev_noheap(t.value, st, fr, raises):
+                for sl, s2 in self.ev(t.slice, s, fr, raises):
+                    tgt = ast.Subscript(value=b, slice=sl, ctx=ast.Load())
+                    s3 = s2.store(canon(tgt), val)
+                    out.append(s3.event(Event('store', fr, node, s3, target=tgt, value=val)))
+            return out
+        return [st]
+
+    def _ev_noheap(self, e, st, fr, raises):
+        """value of the object expression of a store target: locals substituted, stored values not read back"""
+        h = st.heap
+        res = self.ev(e, st.but(heap={}), fr, raises)
+        return [(v, s.but(heap={**h, **s.heap})) for v, s in res]
+
+    def stmt(self, s: ast.stmt, st: St, fr: Fr):
+        """[(kind, value, St)], kind in fall / return / raise / break / continue"""
+        self._tick()
+        raises: list = []
+        out = self._stmt(s, st, fr, raises)
+        return out + raises
+
+    def _stmt(self, s, st, fr, raises):
+        if isinstance(s, ast.Expr):
+            res = []
+            for v, s2 in self.ev(s.value, st, fr, raises):
+                res.append(('fall', None, self._mutation(s.value, v, s2)))
+            return res
+        if isinstance(s, (ast.Assign, ast.AnnAssign)):
+            if s.value is None:
+                return [('fall', None, st)]
+            tgts = s.targets if isinstance(s, ast.Assign) else [s.target]
+            res = []
+            for v, s2 in self.ev(s.value, st, fr, raises):
+                cur = [s2]
+                for t in tgts:
+                    cur = [s4 for s3 in cur for s4 in self._target(t, v, s3, fr, raises, s)]
+                res += [('fall', None, c) for c in cur]
+            return res
+        if isinstance(s, ast.AugAssign):
+            load = ast.copy_location(type(s.target)(**{**{k: v for k, v in ast.iter_fields(s.target)}, 'ctx': ast.Load()}), s.target)
+            res = []
+            for cur_v, s1 in self.ev(load, st, fr, raises):
+                for v, s2 in self.ev(s.value, s1, fr, raises):
+                    nv = simp(ast.BinOp(left=cur_v, op=s.op, right=v))
+                    if isinstance(s.target, ast.Name) and isinstance(s.op, ast.Add) and is_sym(cur_v, '_acc') \
+                            and isinstance(v, (ast.List, ast.Tuple, ast.ListComp)):
+                        # extending an accumulator: the same event as .extend(), the accumulator stays one
+                        ev = Event('call', fr, ast.copy_location(ast.Call(func=ast.Attribute(value=s.target, attr='extend', ctx=ast.Load()),
+                                                                          args=[s.value], keywords=[]), s), s2,
+                                   name='.extend', args=[v], kwargs={}, value=nv, target=cur_v)
+                        res.append(('fall', None, s2.event(ev)))
+                        continue
+                    res += [('fall', None, c) for c in self._target(s.target, nv, s2, fr, raises, s)]
+            return res
+        if isinstance(s, ast.Return):
+            if s.value is None:
+                return [('return', _const(None), st)]
+            return [('return', v, s2) for v, s2 in self.ev(s.value, st, fr, raises)]
+        if isinstance(s, ast.Raise):
+            res = []
+            for v, s2 in (self.ev(s.exc, st, fr, raises) if s.exc is not None else [(None, st)]):
+                res.append(('raise', v, s2.event(Event('raise', fr, s, s2, value=v))))
+            return res
+        if isinstance(s, ast.If):
+            res = []
+            for t, s1 in self.ev(s.test, st, fr, raises):
+                for pol, s2 in self.fork(s1, t):
+                    res += self.block(s.body if pol else s.orelse, s2, fr)
+            return res
+        if isinstance(s, ast.Match):
+            return self._match(s, st, fr, raises)
+        if isinstance(s, (ast.For, ast.AsyncFor)):
+            return self._for(s, st, fr, raises)
+        if isinstance(s, ast.While):
+            return self._loop_summary(s, None, s.body, s.orelse, st, fr, raises, test=s.test)
+        if isinstance(s, ast.Try):
+            return self._try(s, st, fr)
+        if isinstance(s, (ast.With, ast.AsyncWith)):
+            cur = [st]
+            for it in s.items:
+                nxt = []
+                for c in cur:
+                    for v, s2 in self.ev(it.context_expr, c, fr, raises):
+                        if it.optional_vars is not None:
+                            nxt += self._target(it.optional_vars, v, s2, fr, raises, s)
+                        else:
+                            nxt.append(s2)
+                cur = nxt
+            res = []
+            for c in cur:
+                res += self.block(s.body, c, fr)
+            return res
+        if isinstance(s, ast.Assert):
+            res = []
+            for t, s1 in self.ev(s.test, st, fr, raises):
+                s2 = self.assume(s1, t, True) if not (isinstance(t, ast.Call) and canon(t.func) == 'isinstance') else s1
+                if s2 is not None:
+                    res.append(('fall', None, s2))
+            return res
+        if isinstance(s, (ast.FunctionDef, ast.AsyncFunctionDef)):
+            q = f'{fr.fi.qualname}.<locals>.{s.name}'
+            fi = fr.fi.module.functions.get(q)
+            if fi is None:
+                # a closure defined in an inlined frame whose qualified name nests differently
+                fi = next((g for k, g in fr.fi.module.functions.items() if g.node is s), None)
+            return [('fall', None, st.bind(s.name, _Closure(fi)) if fi is not None else st)]
+        if isinstance(s, ast.Break):
+            return [('break', None, st)]
+        if isinstance(s, ast.Continue):
+            return [('continue', None, st)]
+        if isinstance(s, ast.Delete):
+            e = dict(st.env)
+            for t in s.targets:
+                if isinstance(t, ast.Name):
+                    e.pop(t.id, None)
+            return [('fall', None, st.but(env=e))]
+        return [('fall', None, st)]      # pass, import, global, nonlocal, class
+
+    def _mutation(self, src, val, st):
+        """`local.append(x)` & co. on a local literal: keep it a literal outside loops, an accumulator inside"""
+        if isinstance(src, ast.Call) and isinstance(src.func, ast.Attribute) and isinstance(src.func.value, ast.Name) \
+                and src.func.attr in _MUTATORS and src.func.value.id in st.env and isinstance(val, ast.Call):
+            nme = src.func.value.id
+            cur = st.env[nme]
+            if isinstance(cur, (ast.List, ast.Dict, ast.Set)) or is_sym(cur, '_acc'):
+                if isinstance(cur, ast.List) and not st.loops and src.func.attr == 'append' and len(val.args) == 1:
+                    return st.bind(nme, ast.List(elts=list(cur.elts) + [val.args[0]], ctx=ast.Load()))
+                if isinstance(cur, ast.List) and not st.loops and src.func.attr == 'extend' and len(val.args) == 1 \
+                        and isinstance(val.args[0], (ast.List, ast.Tuple)):
+                    return st.bind(nme, ast.List(elts=list(cur.elts) + list(val.args[0].elts), ctx=ast.Load()))
+                return st.bind(nme, _call('_acc', _const(nme)))
+        return st
+
+    def _match(self, s, st, fr, raises):
+        res = []
+        for subj, s1 in self.ev(s.subject, st, fr, raises):
+            pending = [s1]
+            for case in s.cases:
+                nxt = []
+                for c in pending:
+                    conds = self._pattern(case.pattern, subj, c, fr, raises)
+                    for cond, c2 in conds:
+                        if case.guard is not None:
+                            for g, c3 in self.ev(case.guard, c2, fr, raises):
+                                full = simp(ast.BoolOp(op=ast.And(), values=[cond, g]))
+                                for pol, c4 in self.fork(c3, full):
+                                    if pol:
+                                        res += self.block(case.body, c4, fr)
+                                    else:
+                                        nxt.append(c4)
+                        else:
+                            for pol, c3 in self.fork(c2, cond):
+                                if pol:
+                                    res += self.block(case.body, c3, fr)
+                                else:
+                                    nxt.append(c3)
+                pending = nxt
+            res += [('fall', None, c) for c in pending]
+        return res
+
+    def _pattern(self, p, subj, st, fr, raises):
+        """[(condition, St)] for `subj` matching pattern p"""
+        if isinstance(p, ast.MatchValue):
+            return [(simp(ast.Compare(left=subj, ops=[ast.Eq()], comparators=[v])), s) for v, s in self.ev(p.value, st, fr, raises)]
+        if isinstance(p, ast.MatchSingleton):
+            return [(simp(ast.Compare(left=subj, ops=[ast.Is()], comparators=[_const(p.value)])), st)]
+        if isinstance(p, ast.MatchAs):
+            if p.pattern is None:
+                return [(_const(True), st.bind(p.name, subj) if p.name else st)]
+            return [(c, s.bind(p.name, subj) if p.name else s) for c, s in self._pattern(p.pattern, subj, st, fr, raises)]
+        if isinstance(p, ast.MatchOr):
+            alts = [self._pattern(q, subj, st, fr, raises) for q in p.patterns]
+            if all(len(a) == 1 for a in alts):
+                return [(simp(ast.BoolOp(op=ast.Or(), values=[a[0][0] for a in alts])), st)]
+        return [(_call('_matches', subj, _const(ast.unparse(p))), st)]
+
+    def literal_elements(self, it: ast.expr):
+        if isinstance(it, (ast.Tuple, ast.List, ast.Set)) and not any(isinstance(x, ast.Starred) for x in it.elts):
+            return list(it.elts)
+        if isinstance(it, ast.Dict) and None not in it.keys:
+            return list(it.keys)
+        return None
+
+    def _for(self, s, st, fr, raises):
+        res = []
+        for it, s1 in self.ev(s.iter, st, fr, raises):
+            it2 = self.const_table(it, fr)
+            elems = self.literal_elements(it2)
+            if elems is None or len(elems) > 24:
+                res += self._loop_summary(s, it, s.body, s.orelse, s1, fr, raises)
+                continue
+            cur = [s1]
+            broke = []
+            for el in elems:
+                nxt = []
+                for c in cur:
+                    for c2 in self._target(s.target, el, c, fr, raises, s):
+                        for k, v, c3 in self.block(s.body, c2, fr):
+                            if k in ('fall', 'continue'):
+                                nxt.append(c3)
+                            elif k == 'break':
+                                broke.append(c3)
+                            else:
+                                res.append((k, v, c3))
+                cur = nxt
+                if len(cur) > self.cap:
+                    raise Undecided('too many paths in an unrolled loop')
+            for c in cur:
+                res += self.block(s.orelse, c, fr) if s.orelse else [('fall', None, c)]
+            res += [('fall', None, c) for c in broke]
+        return res
+
+    def _loop_summary(self, s, it, body, orelse, st, fr, raises, test=None):
+        """one symbolic iteration: locals written in the loop are unknown on entry and after it"""
+        mod = _assigned_in(body)
+        # a local the loop only ever extends (`x += [...]`, `x.append(...)`) is an accumulator, not an unknown
+        grown = {x.target.id for b in body for x in walk_no_nested(b)
+                 if isinstance(x, ast.AugAssign) and isinstance(x.target, ast.Name) and isinstance(x.op, ast.Add)}
+        aug = {id(x.target) for b in body for x in walk_no_nested(b) if isinstance(x, ast.AugAssign)}
+        other = {x.id for b in body for x in walk_no_nested(b)
+                 if isinstance(x, ast.Name) and isinstance(x.ctx, (ast.Store, ast.Del)) and id(x) not in aug}
+        e = dict(st.env)
+        for nme in mod:
+            if nme in e and not isinstance(e[nme], _Closure):
+                if nme in grown and nme not in other and (isinstance(e[nme], (ast.List, ast.Tuple)) or is_sym(e[nme], '_acc')):
+                    e[nme] = _call('_acc', _const(nme))
+                else:
+                    e[nme] = _call('_loopvar', _const(nme))
+        tag = canon(it) if it is not None else 'while ' + canon(test)
+        entry = st.but(env=e, loops=st.loops + ((tag, s),))
+        def starts_of(entry):
+            if it is not None:
+                each = _call('_each', it)
+                # `for k, v in m.items()`: v is m[k]
+                core = it
+                while isinstance(core, ast.Call) and canon(core.func) in ('list', 'tuple', 'sorted', 'iter') and len(core.args) == 1:
+                    core = core.args[0]
+                if isinstance(core, ast.Call) and isinstance(core.func, ast.Attribute) and core.func.attr == 'items' and not core.args \
+                        and isinstance(s.target, (ast.Tuple, ast.List)) and len(s.target.elts) == 2:
+                    k = ast.Subscript(value=each, slice=_const(0), ctx=ast.Load())
+                    v = ast.Subscript(value=core.func.value, slice=k, ctx=ast.Load())
+                    return self._target(s.target, ast.Tuple(elts=[k, v], ctx=ast.Load()), entry, fr, raises, s)
+                return self._target(s.target, each, entry, fr, raises, s)
+            if test is not None:
+                out = []
+                for t, s1 in self.ev(test, entry, fr, raises):
+                    s2 = self.assume(s1, t, True)
+                    if s2 is not None:
+                        out.append(s2)
+                return out
+            return [entry]
+        # first pass: which object fields does an iteration store?  On entry to an arbitrary iteration they hold what
+        # an earlier iteration left there, so they are unknown (read back as the plain attribute), like the locals
+        raises0 = list(raises)
+        touched = set()
+        for c in starts_of(entry):
+            for k, v, c2 in self.block(body, c, fr):
+                touched |= {hk for hk, hv in c2.heap.items() if st.heap.get(hk) is not hv}
+        del raises[:]
+        raises.extend(raises0)
+        if touched:
+            h2 = {hk: hv for hk, hv in entry.heap.items() if hk not in touched}
+            for hk in touched:
+                try:
+                    h2[hk] = _call('_cur', ast.parse(hk, mode='eval').body)     # the value an earlier iteration left
+                except SyntaxError:
+                    pass
+            entry = entry.but(heap=h2)
+        res = []
+        zero = st.but(env=dict(e))
+        merged_env, merged_events = dict(e), ()
+        merged_heap = {hk: hv for hk, hv in st.heap.items() if hk not in touched}
+        iterated = False
+        for c in starts_of(entry):
+            for k, v, c2 in self.block(body, c, fr):
+                if k in ('fall', 'continue', 'break'):
+                    # what one iteration did to locals and fields is unknown afterwards; the events and accumulators of
+                    # every way through the body are kept together: any number of iterations may have happened
+                    iterated = True
+                    for nme, val in c2.env.items():
+                        if is_sym(val, '_acc'):
+                            merged_env[nme] = val
+                    merged_events += c2.events[len(st.events):] + (Event('endpath', fr, s, c2, name=k, value=None),)
+                else:
+                    res.append((k, v, c2))
+        res.append(('fall', None, zero))
+        if iterated:
+            mark = (_call('_in_loop', _const(tag)), True)
+            res.append(('fall', None, st.but(env=merged_env, heap=merged_heap, events=st.events + merged_events,
+                                              pc=st.pc + (mark,))))
+        return res
+
+    def _try(self, s, st, fr):
+        res = []
+        body_raises: list = []
+        inner = st.but(prot=st.prot + (1 if s.handlers else 0))
+        mod = _assigned_in(s.body)
+        outs = []
+        for k, v, c in self.block(s.body, inner, fr):
+            (body_raises if k == 'raise' else outs).append((k, v, c))
+        for k, v, c in outs:
+            c = c.but(prot=st.prot)
+            if k == 'fall' and s.orelse:
+                outs2 = self.block(s.orelse, c, fr)
+            else:
+                outs2 = [(k, v, c)]
+            for k2, v2, c2 in outs2:
+                res += self._finally(s, k2, v2, c2, fr)
+        # handlers: entered from an explicit raise in the body, or from an exception inside a call / operation
+        if s.handlers:
+            e = dict(st.env)
+            for nme in mod:
+                e[nme] = _call('_maybe', _const(nme))
+            implicit = st.but(env=e)
+            for h in s.handlers:
+                ty = canon(h.type) if h.type is not None else 'BaseException'
+                entries = [self.assume(implicit, _call('_raised', _const(ty), _const(getattr(s, 'lineno', 0))), True)]
+                for k, v, c in body_raises:
+                    entries.append(c.but(prot=st.prot))
+                for c in entries:
+                    if c is None:
+                        continue
+                    if h.name:
+                        c = c.bind(h.name, _call('_exception', _const(ty)))
+                    for k2, v2, c2 in self.block(h.body, c.but(prot=st.prot), fr):
+                        res += self._finally(s, k2, v2, c2, fr)
+        else:
+            for k, v, c in body_raises:
+                res += self._finally(s, k, v, c.but(prot=st.prot), fr)
+        return res
+
+    def _finally(self, s, k, v, c, fr):
+        if not s.finalbody:
+            return [(k, v, c)]
+        out = []
+        for k2, v2, c2 in self.block(s.finalbody, c, fr):
+            out.append((k, v, c2) if k2 == 'fall' else (k2, v2, c2))
+        return out
+
+    # ---------------------------------------------------------------- literal tables behind names
+    def const_table(self, e: ast.expr, fr: Fr, depth=0):
+        """the literal display behind a module-level / class-level name (mutable tables are not folded by the
+        loader), looking through list()/tuple()/sorted()-free wrappers; e itself when it is not such a name"""
+        if depth > 4:
+            return e
+        if isinstance(e, (ast.Tuple, ast.List, ast.Set, ast.Dict)):
+            return e
+        m = fr.fi.module
+        v = None
+        if isinstance(e, ast.Name):
+            r = self.prog.resolve_name(m, e.id)
+            if isinstance(r, tuple) and r[0] == 'const':
+                v, m2 = r[1].constants.get(r[2]), r[1]
+                if v is not None:
+                    r = self._fold_in(v, m2, depth)
+                    return r if isinstance(r, (ast.Tuple, ast.List, ast.Set, ast.Dict, ast.Constant)) else e
+        elif isinstance(e, ast.Attribute) and isinstance(e.value, ast.Name):
+            k = fr.cls if e.value.id in ('self', 'cls') else self.class_named(m, e.value)
+            if k is None and isinstance(fr.self_val, ast.Name) and e.value.id == fr.self_val.id:
+                k = fr.cls
+            if k is not None:
+                for c in k.mro():
+                    ca = c.class_assignments()
+                    if ca.get(e.attr) is not None:
+                        r = self._fold_in(ca[e.attr], c.module, depth)
+                        return r if isinstance(r, (ast.Tuple, ast.List, ast.Set, ast.Dict, ast.Constant)) else e
+        elif isinstance(e, (ast.Call, ast.Subscript)):
+            kids = {}
+            for nme, val in ast.iter_fields(e):
+                if isinstance(val, ast.expr):
+                    kids[nme] = self.const_table(val, fr, depth + 1)
+                elif isinstance(val, list) and all(isinstance(x, ast.expr) for x in val):
+                    kids[nme] = [self.const_table(x, fr, depth + 1) for x in val]
+            r = simp(type(e)(**{**{k: v for k, v in ast.iter_fields(e)}, **kids}))
+            if isinstance(r, (ast.Tuple, ast.List, ast.Set, ast.Dict, ast.Constant)):
+                return r
+        return e
+
+    def _fold_in(self, v, m, depth):
+        """fold a constant's defining expression in its own module (names of other constants looked up there)"""
+        if isinstance(v, (ast.Constant,)):
+            return v
+        fake = Fr(FunctionInfo('<module>', ast.FunctionDef(name='<module>', args=ast.arguments(
+            posonlyargs=[], args=[], kwonlyargs=[], kw_defaults=[], defaults=[]), body=[], decorator_list=[]), m, None),
+            None, None, ())
+
+        def go(x, d):
+            if isinstance(x, (ast.Name, ast.Attribute)) and d < 5:
+                r = self.const_table(x, fake, d + 1)
+                return r
+            if isinstance(x, ast.expr):
+                kids = {}
+                for nme, val in ast.iter_fields(x):
+                    if isinstance(val, ast.expr):
+                        kids[nme] = go(val, d + 1)
+                    elif isinstance(val, list) and val and all(isinstance(y, ast.expr) or y is None for y in val):
+                        kids[nme] = [go(y, d + 1) if y is not None else None for y in val]
+                return simp(type(x)(**{**{k: vv for k, vv in ast.iter_fields(x)}, **kids}))
+            return x
+        return go(v, depth)
+
+
+# ======================================================================================================
+# Evaluation of an *extracted* expression over an explicit model (truth tables, sample rows)
+# ======================================================================================================
+# Guards and small pure expressions taken out of the repository are evaluated on explicit sample values (the five
+# points of the ROCD axis around the tolerance, a sample PTF row, a sample mass list ...).  Only a white list of pure
+# builtins / str / list / re operations is understood; anything else is `Unknown` and the rule that asked decides
+# what that means (usually: undecided).  Nothing of the repository is imported or run.
+
+class Unknown(Exception):
+    pass
+
+
+class Sym:
+    """an opaque constant (an enum member): equal to itself only"""
+
+    def __init__(self, text):
+        self.text = text
+
+    def __eq__(self, o):
+        return isinstance(o, Sym) and o.text == self.text
+
+    def __hash__(self):
+        return hash(self.text)
+
+    def __repr__(self):
+        return self.text
+
+
+_NAN = float('nan')
+_PURE = {
+    'len': len, 'int': int, 'float': float, 'abs': abs, 'min': min, 'max': max, 'all': all, 'any': any, 'sum': sum,
+    'sorted': sorted, 'list': list, 'tuple': tuple, 'set': set, 'str': str, 'bool': bool, 'isinstance': isinstance,
+    'round': round, 'range': range, 'enumerate': enumerate, 'zip': zip, 'dict': dict, 'reversed': reversed,
+    'frozenset': frozenset, 'type': type, 'bytes': bytes, 'object': object, 'map': map, 'filter': filter, 'next': next,
+    'iter': iter, 'divmod': divmod, 'repr': repr,
+}
+_DOTTED = {
+    'np.abs': abs, 'numpy.abs': abs, 'np.absolute': abs, 'numpy.absolute': abs, 'np.fabs': abs, 'math.fabs': abs,
+    'np.nan': _NAN, 'numpy.nan': _NAN, 'math.nan': _NAN, 'np.inf': float('inf'), 'math.inf': float('inf'),
+    'numpy.inf': float('inf'), 'np.isnan': math.isnan, 'math.isnan': math.isnan, 'np.isfinite': math.isfinite,
+    'math.isfinite': math.isfinite, 'np.array': list, 'np.asarray': list, 'numpy.array': list, 'numpy.asarray': list,
+    'np.float64': float, 'np.sign': lambda x: (x > 0) - (x < 0), 'math.copysign': math.copysign,
+    're.findall': _re.findall, 're.search': _re.search, 're.match': _re.match, 're.fullmatch': _re.fullmatch,
+    're.compile': _re.compile, 're.split': _re.split, 're.sub': _re.sub, 're.finditer': _re.finditer,
+    'ValueError': ValueError, 'TypeError': TypeError, 'IndexError': IndexError, 'KeyError': KeyError, 'Exception': Exception,
+    'operator.lt': operator.lt, 'operator.gt': operator.gt, 'operator.le': operator.le, 'operator.ge': operator.ge,
+}
+_METHODS = {
+    str: {'strip', 'lstrip', 'rstrip', 'isdigit', 'isnumeric', 'isdecimal', 'split', 'rsplit', 'lower', 'upper', 'startswith',
+          'endswith', 'replace', 'isspace', 'partition', 'rpartition', 'splitlines', 'find', 'index', 'count', 'join',
+          'casefold', 'isalpha', 'isalnum', 'removeprefix', 'removesuffix', 'format', 'zfill', 'title'},
+    list: {'index', 'count', 'copy'}, tuple: {'index', 'count'},
+    dict: {'get', 'keys', 'values', 'items', 'copy'},
+    float: {'is_integer'}, int: {'bit_length'}, set: {'union', 'intersection', 'issubset', 'issuperset', 'copy'},
+    frozenset: {'union', 'intersection', 'issubset', 'issuperset'},
+    _re.Pattern: {'findall', 'search', 'match', 'fullmatch', 'split', 'sub', 'finditer'},
+    _re.Match: {'group', 'groups', 'start', 'end', 'span', 'groupdict'},
+}
+_BINOPS = {ast.Add: operator.add, ast.Sub: operator.sub, ast.Mult: operator.mul, ast.Div: operator.truediv,
+           ast.FloorDiv: operator.floordiv, ast.Mod: operator.mod, ast.Pow: operator.pow, ast.BitAnd: operator.and_,
+           ast.BitOr: operator.or_, ast.BitXor: operator.xor}
+_CMPOPS = {ast.Eq: operator.eq, ast.NotEq: operator.ne, ast.Lt: operator.lt, ast.LtE: operator.le, ast.Gt: operator.gt,
+           ast.GtE: operator.ge, ast.Is: lambda a, b: a is b or (isinstance(a, Sym) and a == b),
+           ast.IsNot: lambda a, b: not (a is b or (isinstance(a, Sym) and a == b)),
+           ast.In: lambda a, b: a in b, ast.NotIn: lambda a, b: a not in b}
+
+
+def ceval(e: ast.AST, env: dict, atom=None):
+    """value of expression e with names from env; `atom(node)` may give a value to any sub-expression first
+    (return NotImplemented to decline).  Raises Unknown for anything outside the white list; a Python exception
+    raised by a white-listed operation (int('x'), [][0]) propagates as such."""
+    def go(n, env):
+        if atom is not None:
+            r = atom(n)
+            if r is not NotImplemented:
+                return r
+        if isinstance(n, ast.Constant):
+            return n.value
+        if isinstance(n, ast.Name):
+            if n.id in env:
+                return env[n.id]
+            if n.id in _PURE:
+                return _PURE[n.id]
+            if n.id in _DOTTED:
+                return _DOTTED[n.id]
+            raise Unknown(n.id)
+        if isinstance(n, ast.Attribute):
+            d = dotted_name(n)
+            if d in _DOTTED:
+                return _DOTTED[d]
+            if d and d.split('.')[-1].isupper() and d.split('.')[0] not in env and len(d.split('.')) == 2:
+                return Sym(d)
+            v = go(n.value, env)
+            if isinstance(v, (int, float)) and not isinstance(v, bool):
+                if n.attr == 'abs':
+                    return lambda: abs(v)
+                if n.attr == 'between':
+                    return lambda lo, hi, inclusive='both': (lo <= v <= hi) if inclusive == 'both' else (
+                        lo < v < hi if inclusive == 'neither' else (lo <= v < hi if inclusive == 'left' else lo < v <= hi))
+                if n.attr in ('lt', 'le', 'gt', 'ge', 'eq', 'ne'):
+                    return lambda o: getattr(operator, n.attr)(v, o)
+                if n.attr in ('item', 'tolist'):
+                    return lambda: v
+            for ty, names in _METHODS.items():
+                if isinstance(v, ty) and n.attr in names:
+                    return getattr(v, n.attr)
+            raise Unknown(f'.{n.attr} of {type(v).__name__}')
+        if isinstance(n, ast.Call):
+            f = go(n.func, env)
+            ok = f in _PURE.values() or (not isinstance(f, float) and any(f is x for x in _DOTTED.values())) or (
+                getattr(f, '__self__', None) is not None and any(
+                    isinstance(f.__self__, ty) and f.__name__ in names for ty, names in _METHODS.items())) or (
+                getattr(f, '__name__', '') == '<lambda>' and getattr(f, '__module__', '') == __name__)
+            if not ok or not callable(f):
+                raise Unknown(f'call of {ast.unparse(n.func)[:40]}')
+            args = []
+            for a in n.args:
+                if isinstance(a, ast.Starred):
+                    args += list(go(a.value, env))
+                else:
+                    args.append(go(a, env))
+            kw = {}
+            for k in n.keywords:
+                if k.arg is None:
+                    kw.update(go(k.value, env))
+                else:
+                    kw[k.arg] = go(k.value, env)
+            r = f(*args, **kw)
+            if isinstance(r, (map, filter, zip, enumerate, reversed)) or type(r).__name__.endswith('iterator'):
+                r = list(r)
+            return r
+        if isinstance(n, ast.BoolOp):
+            r = None
+            for v in n.values:
+                r = go(v, env)
+                if bool(r) != isinstance(n.op, ast.And):
+                    return r
+            return r
+        if isinstance(n, ast.UnaryOp):
+            v = go(n.operand, env)
+            if isinstance(n.op, ast.Not):
+                return not v
+            if isinstance(n.op, ast.USub):
+                return -v
+            if isinstance(n.op, ast.UAdd):
+                return +v
+            if isinstance(n.op, ast.Invert):
+                return (not v) if isinstance(v, bool) else ~v
+        if isinstance(n, ast.BinOp) and type(n.op) in _BINOPS:
+            return _BINOPS[type(n.op)](go(n.left, env), go(n.right, env))
+        if isinstance(n, ast.Compare):
+            left = go(n.left, env)
+            for op, c in zip(n.ops, n.comparators):
+                right = go(c, env)
+                if not _CMPOPS[type(op)](left, right):
+                    return False
+                left = right
+            return True
+        if isinstance(n, ast.IfExp):
+            return go(n.body, env) if go(n.test, env) else go(n.orelse, env)
+        if isinstance(n, (ast.Tuple, ast.List, ast.Set)):
+            out = []
+            for x in n.elts:
+                if isinstance(x, ast.Starred):
+                    out += list(go(x.value, env))
+                else:
+                    out.append(go(x, env))
+            return tuple(out) if isinstance(n, ast.Tuple) else (list(out) if isinstance(n, ast.List) else set(out))
+        if isinstance(n, ast.Dict):
+            d = {}
+            for k, v in zip(n.keys, n.values):
+                if k is None:
+                    d.update(go(v, env))
+                else:
+                    d[go(k, env)] = go(v, env)
+            return d
+        if isinstance(n, ast.Subscript):
+            v = go(n.value, env)
+            if isinstance(n.slice, ast.Slice):
+                s = n.slice
+                return v[slice(*(go(x, env) if x is not None else None for x in (s.lower, s.upper, s.step)))]
+            return v[go(n.slice, env)]
+        if isinstance(n, ast.JoinedStr):
+            out = ''
+            for v in n.values:
+                if isinstance(v, ast.Constant):
+                    out += str(v.value)
+                elif isinstance(v, ast.FormattedValue) and v.format_spec is None:
+                    x = go(v.value, env)
+                    out += {-1: str, 115: str, 114: repr, 97: ascii}[v.conversion](x)
+                else:
+                    raise Unknown('format spec')
+            return out
+        if isinstance(n, ast.Lambda):
+            names = [a.arg for a in n.args.args]
+            if n.args.vararg or n.args.kwonlyargs or n.args.kwarg or n.args.defaults:
+                raise Unknown('lambda signature')
+            return (lambda *a: go(n.body, {**env, **dict(zip(names, a))}))
+        if isinstance(n, (ast.ListComp, ast.SetComp, ast.GeneratorExp, ast.DictComp)):
+            res = []
+
+            def loop(i, env):
+                if i == len(n.generators):
+                    if isinstance(n, ast.DictComp):
+                        res.append((go(n.key, env), go(n.value, env)))
+                    else:
+                        res.append(go(n.elt, env))
+                    return
+                g = n.generators[i]
+                for item in go(g.iter, env):
+                    e2 = dict(env)
+                    _bind_target(g.target, item, e2)
+                    if all(go(c, e2) for c in g.ifs):
+                        loop(i + 1, e2)
+            loop(0, env)
+            if isinstance(n, ast.DictComp):
+                return dict(res)
+            return set(res) if isinstance(n, ast.SetComp) else res
+        if isinstance(n, ast.NamedExpr):
+            v = go(n.value, env)
+            env[n.target.id] = v
+            return v
+        raise Unknown(type(n).__name__)
+    return go(e, dict(env))
+
+
+def _bind_target(t, v, env):
+    if isinstance(t, ast.Name):
+        env[t.id] = v
+    elif isinstance(t, (ast.Tuple, ast.List)):
+        vs = list(v)
+        if len(vs) != len(t.elts):
+            raise Unknown('unpack')
+        for a, b in zip(t.elts, vs):
+            _bind_target(a, b, env)
+    else:
+        raise Unknown('target')
 
 
 def rule_constants(ctx):
@@ -74,333 +1645,1660 @@ def rule_constants(ctx):
     return consts
 
 
+# ======================================================================================================
+# Recognisers shared by the rules
+# ======================================================================================================
+# role table (oracle: the meaning of the Performance outputs): output field -> performance-table column
+OUTPUT_COLUMN = {'true_airspeed': 'tas', 'rate_of_climb': 'rocd', 'fuel_flow': 'fuel_flow'}
+# flight phase -> sign of the rate of climb of its sub-table (oracle: the property statement / BADA PTF layout)
+PHASE_BAND = {'CLIMB': 'P', 'CRUISE': 'Z', 'DESCEND': 'N'}
+FILTER_BAND = {'POSITIVE': 'P', 'ZERO': 'Z', 'NEGATIVE': 'N'}
+# interpolation / clamping routines that answer outside their data instead of refusing
+CLAMPING = {
+    'numpy.interp': 'returns the end values outside the coordinate range (or left=/right= fill values) instead of raising',
+    'numpy.clip': 'moves a value outside the range onto its edge', 'numpy.minimum': 'clamps', 'numpy.maximum': 'clamps',
+    'numpy.searchsorted': 'places a value outside the range at the edge',
+    'scipy.interpolate.interp1d': 'extrapolates / fills outside the range when asked to, never raises with fill_value set',
+    'scipy.interpolate.RegularGridInterpolator': 'does not raise outside the grid unless bounds_error is left on',
+    'scipy.interpolate.griddata': 'fills with NaN / nearest outside the hull',
+    'scipy.interpolate.LinearNDInterpolator': 'fills with NaN outside the hull',
+    'scipy.interpolate.NearestNDInterpolator': 'answers with the nearest node outside the hull',
+    'scipy.interpolate.RectBivariateSpline': 'evaluates outside the grid at the edge',
+    'scipy.interpolate.interp2d': 'extrapolates',
+    '.clip': 'moves a value outside the range onto its edge',
+}
+INTERPN = 'scipy.interpolate.interpn'
+
+
+def _unwrap_scalar(e):
+    """the array expression inside float(x[0]) / x.item() / np.float64(x)[()] / x.squeeze() / np.asarray(x)"""
+    while True:
+        if isinstance(e, ast.Call) and isinstance(e.func, ast.Name) and e.func.id in ('float',) and len(e.args) == 1 and not e.keywords:
+            e = e.args[0]
+        elif isinstance(e, ast.Call) and isinstance(e.func, ast.Attribute) and e.func.attr in ('item', 'squeeze', 'ravel', 'flatten', 'tolist') \
+                and not e.args:
+            e = e.func.value
+        elif isinstance(e, ast.Call) and dotted_name(e.func) in ('np.float64', 'numpy.float64', 'np.asarray', 'np.squeeze', 'np.ravel') \
+                and len(e.args) == 1:
+            e = e.args[0]
+        elif isinstance(e, ast.Subscript) and isinstance(e.slice, ast.Constant) and e.slice.value in (0, -1, ()):
+            e = e.value
+        elif isinstance(e, ast.Subscript) and isinstance(e.slice, ast.Tuple) and not e.slice.elts:
+            e = e.value
+        else:
+            return e
+
+
+def _point_elements(e):
+    """components of a query point written as a tuple / list / np.array([...]) / np.asarray((...))"""
+    while isinstance(e, ast.Call) and dotted_name(e.func) in ('np.array', 'np.asarray', 'numpy.array', 'numpy.asarray',
+                                                             'np.atleast_1d', 'tuple', 'list') and len(e.args) >= 1:
+        e = e.args[0]
+    if isinstance(e, (ast.Tuple, ast.List)) and not any(isinstance(x, ast.Starred) for x in e.elts):
+        return list(e.elts)
+    return None
+
+
+def _col_of(e):
+    """(table expression, column name) of a column accessor T.col / T['col'] / T.loc[:, 'col']"""
+    if isinstance(e, ast.Attribute) and not isinstance(e.value, ast.Constant):
+        return e.value, e.attr
+    if isinstance(e, ast.Subscript) and isinstance(e.slice, ast.Constant) and isinstance(e.slice.value, str):
+        return e.value, e.slice.value
+    return None
+
+
+def _split_filter(e):
+    """(table, mask) of T[mask] / T.loc[mask] with copies and index resets looked through; (e, None) otherwise"""
+    while isinstance(e, ast.Call) and isinstance(e.func, ast.Attribute) and e.func.attr in ('copy', 'reset_index') \
+            and all(isinstance(a, ast.Constant) for a in e.args) and all(isinstance(k.value, ast.Constant) for k in e.keywords):
+        e = e.func.value
+    if isinstance(e, ast.Subscript) and not isinstance(e.slice, (ast.Constant, ast.Slice, ast.List, ast.Tuple)):
+        base = e.value
+        if isinstance(base, ast.Attribute) and base.attr == 'loc':
+            base = base.value
+        return base, e.slice
+    return e, None
+
+
+class RocdAxis:
+    """the ROCD axis around the zero tolerance, on which sub-table masks and phase predicates are evaluated"""
+
+    def __init__(self, table_cls):
+        self.consts = {}
+        for c in table_cls.mro():
+            for k, v in c.class_assignments().items():
+                if v is not None and isinstance(const_value(v), (int, float)) and not isinstance(const_value(v), bool):
+                    self.consts.setdefault(k, float(const_value(v)))
+        self.tol = next((v for k, v in self.consts.items() if 'TOL' in k.upper() and v > 0), None)
+        t = self.tol or 1.0
+        self.points = (-2 * t, -t, -t / 2, 0.0, t / 2, t, 2 * t)
+
+    def where(self, pred: ast.expr, is_value) -> frozenset | None:
+        """indices of the axis points at which pred holds; is_value(node) says which sub-expressions are the ROCD"""
+        out = set()
+        for i, r in enumerate(self.points):
+            def atom(n, r=r):
+                if is_value(n):
+                    return r
+                if isinstance(n, ast.Attribute) and n.attr in self.consts and n.attr.isupper():
+                    return self.consts[n.attr]
+                return NotImplemented
+            try:
+                if ceval(pred, {}, atom):
+                    out.add(i)
+            except Unknown:
+                return None
+            except Exception:
+                return None
+        return frozenset(out)
+
+    @staticmethod
+    def band(idx: frozenset | None) -> str | None:
+        if not idx:
+            return None
+        if idx <= {0, 1}:
+            return 'N'
+        if idx <= {5, 6}:
+            return 'P'
+        if 3 in idx and idx <= {1, 2, 3, 4, 5}:
+            return 'Z'
+        return None
+
+    def mask_band(self, mask: ast.expr, table: ast.expr):
+        """(band, axis indices) of a row mask over the ROCD column of `table`"""
+        tt = canon(table)
+
+        def is_value(n):
+            c = _col_of(n)
+            return c is not None and c[1] == 'rocd' and canon(c[0]) == tt
+        idx = self.where(mask, is_value)
+        return self.band(idx), idx
+
+    def gen_band(self, call: ast.expr, over: str):
+        """band of P in all(P(v) for v in <over>)"""
+        if not (isinstance(call, ast.Call) and canon(call.func) == 'all' and len(call.args) == 1
+                and isinstance(call.args[0], (ast.GeneratorExp, ast.ListComp)) and len(call.args[0].generators) == 1):
+            return None
+        g = call.args[0].generators[0]
+        if not isinstance(g.target, ast.Name) or canon(g.iter) != over or g.ifs:
+            return None
+        v = g.target.id
+        return self.band(self.where(call.args[0].elt, lambda n: isinstance(n, ast.Name) and n.id == v))
+
+
+def _units_consts(prog):
+    return module_constants(prog.module(UNITS))
+
+
+def _nf(e, consts):
+    try:
+        return normal_form(clone(e), {}, consts)
+    except AlgebraError:
+        return None
+
+
+def _coefficient(nf, atom: str):
+    """c when the normal form is exactly c * atom (c a non-zero constant), else None"""
+    if nf is None or list(nf.den.keys()) != [()] or len(nf.num) != 1:
+        return None
+    (mono, c), = nf.num.items()
+    if mono != ((atom, 1),) or c == 0:
+        return None
+    return c / nf.den[()]
+
+
+# ======================================================================================================
+# The evaluate path, end to end
+# ======================================================================================================
+class EvalPath:
+    """one way through BasePerformanceModel.evaluate down to the interpolation calls"""
+
+    def __init__(self, kind, value, st):
+        self.kind, self.value, self.st = kind, value, st
+        self.outputs = {}        # Performance field -> value expression
+        self.interp = {}         # Performance field -> Event of the interpn call that produces it (or None)
+
+
+def evaluate_paths(ctx):
+    """symbolic execution of evaluate() of the table model (cached on the program)"""
+    prog = ctx.prog
+    cached = prog.__dict__.get('_c06_eval')
+    if cached is not None:
+        return cached
+    m = prog.module(LEG)
+    model = next((c for c in m.classes.values() if c.is_subclass_of('BasePerformanceModel') and c.find_method('evaluate_impl')
+                  and c.find_method('evaluate_impl').file == m.relpath), None)
+    if model is None:
+        raise AnalysisError('anchor vanished: no performance model class with evaluate_impl in ' + m.relpath)
+    ev = model.find_method('evaluate')
+    if ev is None:
+        raise AnalysisError('anchor vanished: BasePerformanceModel.evaluate')
+    prog.consulted.add(ev.file)
+    eng = Engine(prog)
+    names = ['self', 'state', 'rules']
+    args = {p: _name(n) for p, n in zip(ev.params, names)}
+    try:
+        outs = eng.run(ev, self_cls=model, args=args)
+    except Undecided as e:
+        ctx.undecided('C06-R2', ev, 'evaluate path', str(e))
+    perf = prog.cls('performance/types.py', 'Performance')
+    fields = list(perf.annotated_fields())
+    paths = []
+    for kind, val, st in outs:
+        p = EvalPath(kind, val, st)
+        if kind == 'return' and isinstance(val, ast.Call) and isinstance(val.func, ast.Name) and val.func.id == perf.name:
+            vals = dict(zip(fields, val.args))
+            vals.update({k.arg: k.value for k in val.keywords if k.arg})
+            p.outputs = vals
+            calls = {canon(e.value): e for e in st.events if e.kind == 'call'}
+            for f, v in vals.items():
+                core = _unwrap_scalar(v)
+                p.interp[f] = calls.get(canon(core)) if isinstance(core, ast.Call) else None
+        paths.append(p)
+    res = (eng, model, ev, paths, fields)
+    prog.__dict__['_c06_eval'] = res
+    return res
+
+
 def rule_no_extrapolation(ctx):
+    """R2 (also C02-R10, C17-R6).  Decided on the values that flow: every output of evaluate() is, on every path,
+    the result of scipy interpn with bounds checking on, linear, over the grid and the value table of one and the
+    same interpolator object, at a query point whose components are the state's altitude (times a constant) and
+    the state's mass / the table's extreme mass -- whichever function each piece sits in."""
     prog = ctx.prog
-    m = prog.module(LEG)
-    roots = [m.func('LegacyPerformanceModel.evaluate_impl'), m.func('PerformanceTable.interpolate'),
-             m.func('Interpolator.__call__'), prog.func('performance/models/base.py', 'BasePerformanceModel.evaluate'),
-             prog.func('performance/models/base.py', 'BasePerformanceModel._evaluate_checked')]
-    fns = {f.qualname: f for f in closure(prog, roots) if f.file.endswith((LEG, 'models/base.py'))}
-    n_interpn = 0
-    for f in fns.values():
-        for c in calls_in(f.node):
-            cn = call_name(c)
-            short = cn.split('.')[-1]
-            if short == 'interpn':
-                n_interpn += 1
-                bad = [k.arg for k in c.keywords if k.arg in ('bounds_error', 'fill_value')]
-                meth = kwarg(c, 'method')
-                ok = not bad and (meth is None or (isinstance(meth, ast.Constant) and meth.value == 'linear'))
-                ctx.ob('C06-R2', f, f'interpn(…{", " + ", ".join(bad) if bad else ""})', ok,
-                       'bounds checking left at its default (raise outside the grid), linear' if ok else
-                       f'{bad or "non-linear method"}: out-of-envelope states are extrapolated/filled instead of rejected',
-                       line=c.lineno)
-            elif short in ('interp', 'interp1d', 'clip', 'RegularGridInterpolator', 'griddata', 'searchsorted') \
-                    and cn.split('.')[0] in ('np', 'numpy', 'scipy', 'interpolate', short):
-                ctx.ob('C06-R2', f, f'{cn}(…) on the evaluate path', False,
-                       f'{cn} clamps / does not reject values outside the table: a state outside the envelope '
-                       'returns the edge row instead of being refused', line=c.lineno)
-            elif short in ('min', 'max') and any(norm(a) in ('fl', 'mass', 'state.altitude') for a in c.args) \
-                    and len(c.args) >= 2:
-                ctx.ob('C06-R2', f, f'{norm(c)[:50]}', False, 'the query state is clamped into the table range', line=c.lineno)
-    ctx.floor('C06-R2', n_interpn, 3, 'interpn calls on the evaluate path')
+    eng, model, evf, paths, fields = evaluate_paths(ctx)
+    consts = _units_consts(prog)
+    rets = [p for p in paths if p.kind == 'return']
+    if not rets:
+        ctx.undecided('C06-R2', evf, 'evaluate', 'no returning path found')
+    n_ok = 0
+    seen = set()
+    # ---- outputs come from bounds-checked interpn over the interpolator's own grid / table
+    for p in rets:
+        if not p.outputs:
+            if isinstance(p.value, ast.Constant) and p.value.value is None:
+                continue            # no answer at all (no flight rule matched): nothing is extrapolated
+            key = ('ret', canon(p.value)[:80])
+            if key not in seen:
+                seen.add(key)
+                ctx.undecided('C06-R2', evf, canon(p.value)[:80], 'evaluate() returns something that is not a Performance(...) built on the path')
+            continue
+        for f in fields:
+            v = p.outputs.get(f)
+            e = p.interp.get(f)
+            where = e.fi if e is not None else evf
+            if v is None:
+                ctx.undecided('C06-R2', evf, f, 'output field not set')
+            core = _unwrap_scalar(v)
+            if e is None or e.name != INTERPN:
+                nm = e.name if e is not None else None
+                ext = [x for x in p.st.events if x.kind == 'call' and x.name in CLAMPING and canon(x.value) in canon(v)]
+                if ext:
+                    e, nm, where = ext[0], ext[0].name, ext[0].fi
+                key = (f, nm, where.qualname, canon(core)[:60])
+                if key in seen:
+                    continue
+                seen.add(key)
+                short = canon(core)[:70]
+                if nm in CLAMPING:
+                    ctx.ob('C06-R2', where, f'{f} = {nm.replace("numpy.", "np.")}(…) on the evaluate path', False,
+                           f'{nm} {CLAMPING[nm]}: a state outside the table is answered with an edge / fill value '
+                           'instead of being refused', line=e.line)
+                elif isinstance(core, ast.Call):
+                    ctx.undecided('C06-R2', where, short, f'{f} is produced by a call the rule does not know to be bounds-checked')
+                else:
+                    ctx.ob('C06-R2', where, f'{f} = {short}', False, f'{f} is not the result of an interpolation in the table',
+                           line=getattr(p.value, 'lineno', 0) or evf.node.lineno)
+                continue
+            grid, vals, xi = e.arg(0, 'points'), e.arg(1, 'values'), e.arg(2, 'xi')
+            I = e.self_val
+            problems = []
+            be, fv, meth = e.kwargs.get('bounds_error'), e.kwargs.get('fill_value'), e.arg(3, 'method')
+            if len(e.args) > 4:
+                be = e.args[4]
+            if len(e.args) > 5:
+                fv = e.args[5]
+            if be is not None and not (isinstance(be, ast.Constant) and be.value is True):
+                problems.append(f'bounds_error={canon(be)}' + (f', fill_value={canon(fv)}' if fv is not None else '')
+                                + ': a state outside the grid is extrapolated / filled instead of refused')
+            if meth is not None and not (isinstance(meth, ast.Constant) and meth.value == 'linear'):
+                problems.append(f'method={canon(meth)} is not linear interpolation')
+            if any(k.startswith('**') for k in e.kwargs) or any(isinstance(a, ast.Starred) for a in e.args):
+                ctx.undecided('C06-R2', where, canon(e.value)[:80], 'interpn called with unpacked arguments')
+            own = I is not None and isinstance(grid, ast.Attribute) and isinstance(vals, ast.Attribute) \
+                and canon(grid.value) == canon(I) and canon(vals.value) == canon(I)
+            if not own and not problems:
+                if grid is None or vals is None or not isinstance(vals, ast.Attribute):
+                    ctx.undecided('C06-R2', where, canon(e.value)[:80], 'grid / value table of the interpolation not recognised')
+                problems.append(f'{f} is interpolated over `{canon(grid)[:50]}` / `{canon(vals)[:50]}`: not the grid and table of one interpolator')
+            key = (f, where.qualname, own and (grid.attr, vals.attr), tuple(problems), e.line)
+            if key in seen:
+                continue
+            seen.add(key)
+            ok = not problems
+            n_ok += ok
+            what = f'{f} = interpn(<interpolator>.{grid.attr}, <interpolator>.{vals.attr}, query)' if own else f'{f} = {canon(e.value)[:60]}'
+            ctx.ob('C06-R2', where, what, ok,
+                   'bounds checking left on (raise outside the grid), linear, over the interpolator\'s own grid and table' if ok
+                   else '; '.join(problems), line=e.line)
+    ctx.floor('C06-R2', n_ok, 3, 'outputs produced by bounds-checked interpn on the evaluate path')
+    # ---- the three outputs use one grid attribute and three different tables
+    grids, tables = set(), {}
+    for p in rets:
+        for f, e in p.interp.items():
+            if e is not None and e.name == INTERPN and isinstance(e.arg(0, 'points'), ast.Attribute) and isinstance(e.arg(1, 'values'), ast.Attribute):
+                grids.add(e.arg(0, 'points').attr)
+                tables.setdefault(f, set()).add(e.arg(1, 'values').attr)
+    if tables:
+        ok = len(grids) == 1 and all(len(v) == 1 for v in tables.values()) and \
+            len({next(iter(v)) for v in tables.values()}) == len(tables)
+        ctx.ob('C06-R2', evf, f'outputs {sorted(tables)} read tables {sorted(next(iter(v)) for v in tables.values())} over grid {sorted(grids)}',
+               ok, 'one grid, one table per output' if ok else 'two outputs are interpolated from the same table, or over different grids')
+    # ---- the query point: components are the state's own altitude (constant factor) and mass, nothing in between
+    seen_q = set()
+    for p in rets:
+        for f, e in p.interp.items():
+            if e is None or e.name != INTERPN:
+                continue
+            xi = e.arg(2, 'xi')
+            key = (e.fi.qualname, canon(xi))
+            if key in seen_q:
+                continue
+            seen_q.add(key)
+            comps = _point_elements(xi)
+            if comps is None and isinstance(xi, ast.Call):
+                nm = dotted_name(xi.func) or ''
+                full = {'np': 'numpy'}.get(nm.split('.')[0], nm.split('.')[0]) + '.' + nm.split('.', 1)[-1] if '.' in nm else nm
+                if full in CLAMPING or (isinstance(xi.func, ast.Attribute) and '.' + xi.func.attr in CLAMPING):
+                    ctx.ob('C06-R2', e.fi, f'query point = {canon(xi)[:70]}', False,
+                           f'the query point is passed through {nm or xi.func.attr} before interpolation: a state outside the table is moved '
+                           'into it instead of being refused', line=e.line)
+                    continue
+            if comps is None or len(comps) not in (1, 2):
+                ctx.undecided('C06-R2', e.fi, canon(xi)[:80], 'query point of the interpolation is not a literal point')
+            fl_ok, why = _altitude_component(comps[0], consts)
+            if fl_ok is None:
+                ctx.undecided('C06-R2', e.fi, canon(comps[0])[:80], why)
+            ctx.ob('C06-R2', e.fi, f'altitude coordinate of the query = {canon(comps[0])[:70]}', fl_ok,
+                   'the state\'s altitude times a constant, nothing else' if fl_ok else why, line=e.line)
+            if len(comps) == 2:
+                m_ok, why = _mass_component(comps[1], e, ctx)
+                if m_ok is None:
+                    ctx.undecided('C06-R2', e.fi, canon(comps[1])[:80], why)
+                ctx.ob('C06-R2', e.fi, f'mass coordinate of the query = {canon(comps[1])[:70]}', m_ok,
+                       'the state\'s mass or the table\'s own extreme mass' if m_ok else why, line=e.line)
+    # ---- nothing else on the path answers outside its data
+    n_ext = 0
+    for p in paths:
+        for e in p.st.events:
+            if e.kind == 'call' and e.name in CLAMPING:
+                n_ext += 1
+                key = ('ext', e.fi.qualname, e.line, e.name)
+                if key in seen:
+                    continue
+                seen.add(key)
+                if any(canon(e.value) in canon(v) for q in rets for v in q.outputs.values()):
+                    continue            # reported with the output it produces
+                ctx.ob('C06-R2', e.fi, f'{e.name.replace("numpy.", "np.")}(…) on the evaluate path', False,
+                       f'{e.name} {CLAMPING[e.name]}', line=e.line)
+    # positive controls: the recognisers see the forbidden forms in an embedded example
     ctl = ast.parse('interpn(xs, v, x, bounds_error=False, fill_value=None)').body[0].value
-    ctx.control('C06-R2', any(k.arg == 'bounds_error' for k in ctl.keywords), 'embedded interpn(..., bounds_error=False) is recognised')
-    ctl2 = ast.parse('np.interp(fl, fls, values)').body[0].value
-    ctx.control('C06-R2', call_name(ctl2).split('.')[-1] == 'interp', 'embedded np.interp(...) is recognised')
-    # all three outputs interpolated over the same coordinates with the same query
-    ic = m.func('Interpolator.__call__')
-    cs = [c for c in calls_in(ic.node) if call_name(c).split('.')[-1] == 'interpn']
-    got = {}
-    for c in cs:
-        p = getattr(c, '_parent', None)
-        while p is not None and not isinstance(p, ast.keyword):
-            p = getattr(p, '_parent', None)
-        if p is not None:
-            got[p.arg] = (norm(c.args[0]), norm(c.args[1]), norm(c.args[2]))
-    want = {'true_airspeed': ('self.xs', 'self.tas', 'x'), 'rate_of_climb': ('self.xs', 'self.rocd', 'x'),
-            'fuel_flow': ('self.xs', 'self.fuel_flow', 'x')}
-    for k, w in want.items():
-        ok = got.get(k) == w
-        ctx.ob('C06-R2', ic, f'{k} = interpn{got.get(k)}', ok, 'output interpolates its own table over the shared grid' if ok
-               else f'{k} is interpolated from the wrong array / grid / query', line=ic.node.lineno)
-    xd = [st for t, st, how in stores_to(ic.node) if isinstance(t, ast.Name) and t.id == 'x']
-    ok = len(xd) == 2 and {norm(s.value) for s in xd} == {'(fl, mass)', 'np.array([fl])'}
-    ctx.ob('C06-R2', ic, 'query point is (fl, mass) or [fl], unmodified', ok,
-           'state passed through unchanged' if ok else 'the query point is altered before interpolation', nontrivial=False)
+    ctx.control('C06-R2', any(k.arg == 'bounds_error' and not (isinstance(k.value, ast.Constant) and k.value.value is True)
+                              for k in ctl.keywords), 'embedded interpn(..., bounds_error=False) is recognised')
+    ctx.control('C06-R2', 'numpy.interp' in CLAMPING and Engine(prog).ext_name(
+        Fr(evf, None, None, ()), ast.parse('np.interp(fl, fls, values)').body[0].value.func) in ('numpy.interp', 'np.interp'),
+        'embedded np.interp(...) is recognised')
 
 
-def rule_validation(ctx):
+def _altitude_component(e, consts):
+    """(ok, why): e is state.altitude times a constant"""
+    nf = _nf(e, consts)
+    if nf is None:
+        return None, 'altitude coordinate is not arithmetic the algebra can read'
+    atoms = nf.atoms()
+    if atoms == {'state.altitude'}:
+        if _coefficient(nf, 'state.altitude') is not None:
+            return True, ''
+        return False, f'the altitude coordinate `{canon(e)[:60]}` is not proportional to the state\'s altitude'
+    extra = sorted(a for a in atoms if a != 'state.altitude')
+    clamp = [a for a in extra if a.split('(')[0] in ('min', 'max', 'clip', 'minimum', 'maximum', 'round', 'floor', 'ceil', 'int')]
+    if clamp:
+        return False, f'the altitude is passed through `{clamp[0][:60]}` before interpolation: a state outside the table is moved into it'
+    if 'state.altitude' not in atoms:
+        return False, f'the altitude coordinate `{canon(e)[:60]}` does not come from the state\'s altitude'
+    return None, f'altitude coordinate depends on {extra}'
+
+
+def _mass_component(e, ev, ctx):
+    """(ok, why): e is state.aircraft_mass, or min()/max() of the table's own mass list (or its end elements)"""
+    t = canon(e)
+    if t == 'state.aircraft_mass':
+        return True, ''
+    if isinstance(e, ast.Call) and canon(e.func) in ('min', 'max', 'np.min', 'np.max', 'numpy.min', 'numpy.max') and len(e.args) == 1 \
+            and not e.keywords and isinstance(e.args[0], ast.Attribute) and e.args[0].attr == 'mass':
+        return True, ''
+    if isinstance(e, ast.Subscript) and isinstance(e.value, ast.Attribute) and e.value.attr == 'mass' \
+            and isinstance(const_value(e.slice), int):
+        return True, ''          # which element it must be is R4's clause
+    if isinstance(e, ast.Call) and canon(e.func).split('.')[-1] in ('min', 'max', 'clip', 'minimum', 'maximum') \
+            and 'state.aircraft_mass' in t:
+        return False, f'the mass is passed through `{t[:60]}` before interpolation: a mass outside the table is moved into it'
+    if 'state.aircraft_mass' in t:
+        return False, f'the mass coordinate `{t[:60]}` is not the state\'s mass itself'
+    return None, 'mass coordinate not recognised'
+
+
+
+def _mentions(e, pred) -> bool:
+    return any(pred(n) for n in ast.walk(e))
+
+
+def _taken(pc, atom, pred):
+    """True / False / None (some literal could not be evaluated): do the literals of the path condition that
+    mention the scenario variable hold when it takes the scenario's value?  Sub-conditions the path has decided
+    elsewhere (`name in self._data` ...) take the value the path gives them."""
+    known = {canon(c): p for c, p in pc}
+    unknown = False
+    for cond, pol in pc:
+        if not _mentions(cond, pred):
+            continue
+
+        def hook(n, cond=cond):
+            r = atom(n)
+            if r is not NotImplemented:
+                return r
+            if n is not cond and isinstance(n, (ast.Compare, ast.Call, ast.Name, ast.Attribute, ast.Subscript)):
+                t = canon(n)
+                if t in known:
+                    return known[t]
+            return NotImplemented
+        try:
+            v = bool(ceval(cond, {}, hook))
+        except Exception:
+            unknown = True
+            continue
+        if v != pol:
+            return False
+    return None if unknown else True
+
+
+def _enum_members(cls) -> list[str]:
+    return [k for k, v in cls.class_assignments().items() if k.isupper() and v is not None]
+
+
+def _table_ctor_sites(ctx, table_cls):
+    """constructor events of the table class over every function of its module that builds one"""
     prog = ctx.prog
-    m = prog.module(LEG)
-    vp = m.func('LegacyPerformanceModel.validate_pm')
-    decs = vp.decorators()
-    ok = any("model_validator(mode='after')" in d for d in decs) and any(
-        call_name(c) == 'PerformanceTable.from_input' for c in calls_in(vp.node))
-    ctx.ob('C06-R3', vp, 'model validation builds the performance table', ok,
-           'after-validator constructs PerformanceTable' if ok else 'the table is no longer validated at load time')
-    fi = m.func('PerformanceTable.from_input')
-    ok = any(call_name(c) == 'cls' for c in calls_in(fi.node))
-    ctx.ob('C06-R3', fi, 'from_input constructs through cls(...) (runs __post_init__)', ok, 'dataclass constructor', nontrivial=False)
-    pi = m.func('PerformanceTable.__post_init__')
-    helpers = {}
-    for q in ('check_coverage', 'check_fl_only'):
-        h = m.functions.get(f'PerformanceTable.__post_init__.<locals>.{q}')
-        if h is None:
-            ctx.undecided('C06-R3', pi, q, 'validation helper not found')
-        raises = [n for n in walk_no_nested(h.node) if isinstance(n, ast.Raise)]
-        guarded = [r for r in raises if any(isinstance(t, ast.Compare) and isinstance(t.ops[0], ast.NotEq) for t, _, _ in guards_of(r))]
-        helpers[q] = bool(guarded)
-        ctx.ob('C06-R3', h, f'{q} raises on mismatch', bool(guarded),
-               'raise under a != comparison' if guarded else f'{q} no longer refuses an incomplete table')
-    cov = [c for c in calls_in(pi.node) if call_name(c) == 'check_coverage']
-    labels = sorted(norm(c.args[1]) for c in cov if len(c.args) > 1)
-    ok = labels == ["'negative'", "'positive'", "'zero'"]
-    ctx.ob('C06-R3', pi, f'coverage checked for {labels}', ok, 'all three phase sub-tables' if ok else
-           'a phase sub-table is not checked for full FL × mass coverage')
-    flo = sorted((norm(c.args[2]), norm(c.args[1])) for c in calls_in(pi.node) if call_name(c) == 'check_fl_only' and len(c.args) > 2)
-    want = sorted([("'zero'", "'tas'"), ("'positive'", "'tas'"), ("'positive'", "'fuel_flow'"),
-                   ("'negative'", "'tas'"), ("'negative'", "'fuel_flow'"), ("'negative'", "'rocd'")])
-    ok = flo == want
-    ctx.ob('C06-R3', pi, f'{len(flo)} FL-only checks', ok, 'the six documented FL-only dependencies' if ok else
-           f'FL-only checks are {flo}')
-    # each check is applied to the sub-table its label names
-    sub = {'check_zero': "'zero'", 'check_pos': "'positive'", 'check_neg': "'negative'"}
-    bad = [norm(c) for c in calls_in(pi.node) if call_name(c) in ('check_coverage', 'check_fl_only')
-           and sub.get(norm(c.args[0])) != norm(c.args[-1])]
-    ctx.ob('C06-R3', pi, 'each check runs on the sub-table its label names', not bad, 'consistent' if not bad else
-           f'{bad[0]} checks a different sub-table than it reports')
-    # every check runs for every table: each check call lies on every normal path through __post_init__
-    from ..cfg import CFG
-    gp = CFG(pi.node)
-    domp = gp.dominators(edge_ok=lambda a, b, lab: lab != 'e')
-    chk_nodes = [n for n in gp.nodes if n.stmt is not None and n.kind == 'stmt' and
-                 any(call_name(c) in ('check_coverage', 'check_fl_only') for c in calls_in(n.stmt))]
-    skipped = [n for n in chk_nodes if n.id not in domp.get(gp.exit, set())]
-    early = [n for n in gp.nodes if n.kind == 'stmt' and isinstance(n.stmt, ast.Return)]
-    ctx.ob('C06-R3', pi, f'all {len(chk_nodes)} grid checks run on every path through __post_init__', not skipped and bool(chk_nodes),
-           'no early exit bypasses them' if not skipped else
-           (f'`{skipped[0].text()[:50]}` (and {len(skipped) - 1} more) can be bypassed'
-            + (f' by the early `return` at line {early[0].line}' if early else '')
-            + ': some tables are accepted without the complete-grid / FL-only checks'),
-           line=(early[0].line if early else pi.node.lineno))
-    nm = [n for n in walk_no_nested(pi.node) if isinstance(n, ast.Raise) and any('n_mass_values' in norm(t) for t, _, _ in guards_of(n))]
-    ctx.ob('C06-R3', pi, 'mass count check raises', bool(nm), 'len(mass) != n_mass_values → raise' if nm else
-           'the number of mass values is no longer checked')
-    tries = [n for f in (vp, fi, pi) for n in walk_no_nested(f.node) if isinstance(n, ast.Try)]
-    ctx.ob('C06-R3', pi, 'no handler swallows the validation errors', not tries, 'no try/except on the load path' if not tries
-           else 'a try/except on the load path can swallow the refusal')
-    it = m.func('Interpolator.__init__')
-    r = [n for n in walk_no_nested(it.node) if isinstance(n, ast.Raise)]
-    ctx.ob('C06-R3', it, 'interpolator refuses duplicate (FL, mass) pairs', bool(r), 'raise present' if r else 'check removed', nontrivial=False)
+    out = []
+    for fi in list(table_cls.module.functions.values()):
+        hit = False
+        for c in calls_in(fi.node):
+            f = c.func
+            if isinstance(f, ast.Name) and ((f.id == 'cls' and fi.cls is table_cls and fi.params[:1] == ['cls'])
+                                            or prog.resolve_class_expr(fi.module, f) is table_cls):
+                hit = True
+        if not hit:
+            continue
+        eng = Engine(prog)
+        try:
+            eng.run(fi, self_cls=fi.cls)
+        except Undecided:
+            continue
+        out += [e for k, e in eng.ctors if k is table_cls]
+    return out
+
+
+def _is_sorted_unique(e, col: str | None = None):
+    """(table expr, column) when e is the ascending sequence of the distinct values of a table column, however the
+    three steps are spelt and nested: ordering (sorted / np.sort / np.unique, not reversed, no key), distinctness
+    (.unique() / set / np.unique / drop_duplicates) and harmless packaging (list / tuple / np.array / .tolist() /
+    element-wise float()).  None when e is anything else."""
+    ordered = distinct = False
+    for _ in range(12):
+        if isinstance(e, ast.Call):
+            d = dotted_name(e.func) or ''
+            f = e.func
+            if d in ('np.array', 'np.asarray', 'numpy.array', 'numpy.asarray', 'list', 'tuple', 'np.float64') and len(e.args) == 1 \
+                    and all(k.arg == 'dtype' for k in e.keywords):
+                e = e.args[0]
+                continue
+            if isinstance(f, ast.Attribute) and f.attr in ('tolist', 'to_numpy', 'to_list', 'copy', 'astype') and (
+                    not e.args or f.attr == 'astype'):
+                e = f.value
+                continue
+            if d in ('sorted', 'np.sort', 'numpy.sort') and len(e.args) == 1:
+                rev = kwarg(e, 'reverse')
+                if (rev is not None and not (isinstance(rev, ast.Constant) and rev.value is False)) or kwarg(e, 'key') is not None:
+                    return None
+                if distinct and d == 'sorted':
+                    pass
+                ordered, e = True, e.args[0]
+                continue
+            if d in ('np.unique', 'numpy.unique') and len(e.args) == 1 and not e.keywords:
+                ordered, distinct, e = True, True, e.args[0]
+                continue
+            if d in ('set', 'frozenset', 'pd.unique', 'dict.fromkeys') and len(e.args) == 1 and not e.keywords:
+                if ordered is False:
+                    return None         # distinct but in no particular order, and nothing sorts it afterwards
+                distinct, e = True, e.args[0]
+                continue
+            if isinstance(f, ast.Attribute) and f.attr in ('unique', 'drop_duplicates') and not e.args and not e.keywords:
+                distinct, e = True, f.value         # keeps the order of first appearance: sorting may come before or after
+                continue
+            if isinstance(f, ast.Attribute) and f.attr == 'sort_values' and not e.args and _col_of(f.value) is not None:
+                asc = kwarg(e, 'ascending')
+                if (asc is not None and not (isinstance(asc, ast.Constant) and asc.value is True)) or kwarg(e, 'key') is not None:
+                    return None
+                ordered, e = True, f.value
+                continue
+            if d == 'map' and len(e.args) == 2 and canon(e.args[0]) in ('float', 'int'):
+                e = e.args[1]
+                continue
+            return None
+        if isinstance(e, (ast.GeneratorExp, ast.ListComp, ast.SetComp)) and len(e.generators) == 1 and not e.generators[0].ifs \
+                and isinstance(e.generators[0].target, ast.Name):
+            v = e.generators[0].target.id
+            elt = e.elt
+            while isinstance(elt, ast.Call) and canon(elt.func) in ('float', 'int', 'np.float64') and len(elt.args) == 1:
+                elt = elt.args[0]
+            if not (isinstance(elt, ast.Name) and elt.id == v):
+                return None
+            if isinstance(e, ast.SetComp):
+                if not ordered:
+                    return None
+                distinct = True
+            e = e.generators[0].iter
+            continue
+        break
+    if not (ordered and distinct):
+        return None
+    return _values_of_column(e)
+
+
+def _values_of_column(e):
+    while (isinstance(e, ast.Attribute) and e.attr == 'values') or (
+            isinstance(e, ast.Call) and isinstance(e.func, ast.Attribute) and e.func.attr in ('to_numpy', 'tolist', 'to_list') and not e.args):
+        e = e.value if isinstance(e, ast.Attribute) else e.func.value
+    return _col_of(e)
 
 
 def rule_masses(ctx):
-    m = ctx.prog.module(LEG)
-    ip = m.func('PerformanceTable.interpolate')
-    got = {}
-    for x in walk_no_nested(ip.node):
-        if isinstance(x, ast.If) and isinstance(x.test, ast.Compare) and norm(x.test.left) == 'mass' \
-                and isinstance(x.test.comparators[0], ast.Constant):
-            for s in x.body:
-                if isinstance(s, ast.Assign) and norm(s.targets[0]) == 'mass':
-                    got[x.test.comparators[0].value] = norm(s.value)
-    ok = got == {'min': 'min(self.mass)', 'max': 'max(self.mass)'}
-    ctx.ob('C06-R4', ip, f"symbolic masses {got}", ok, "'min' → lowest table mass, 'max' → highest" if ok else
-           'symbolic minimum/maximum mass do not mean the table extremes')
-    fl = single_def_value(ip.node, 'fl')
-    ok = fl is not None and norm(fl) == 'state.altitude * METERS_TO_FL'
-    ctx.ob('C06-R6', ip, f'fl = {norm(fl) if fl is not None else "?"}', ok, 'altitude in metres converted with METERS_TO_FL' if ok else
-           'altitude is converted to flight level with the wrong factor')
-    r = [n for n in walk_no_nested(ip.node) if isinstance(n, ast.Return)]
-    ok = len(r) == 1 and norm(r[0].value) == 'self._interpolators[rocd](fl, mass)'
-    ctx.ob('C06-R6', ip, 'interpolator of the requested phase evaluated at (fl, mass)', ok, norm(r[0].value) if ok else
-           'wrong interpolator or argument order')
-    cache = [st for t, st, how in stores_to(ip.node) if isinstance(t, ast.Subscript) and norm(t.value) == 'self._interpolators']
-    ok = len(cache) == 1 and norm(cache[0].targets[0].slice) == 'rocd' and norm(cache[0].value) == 'Interpolator(self.subset(rocd).df)' \
-        and any(norm(t) == 'rocd not in self._interpolators' for t, _, _ in guards_of(cache[0]))
-    ctx.ob('C06-R6', ip, 'interpolators cached per phase filter', ok, 'key = filter = subset argument' if ok else
-           'phase interpolator cache key and the sub-table it was built from disagree')
-    ev = m.func('LegacyPerformanceModel.evaluate_impl')
-    pairs = {}
-    for x in walk_no_nested(ev.node):
-        if isinstance(x, ast.match_case) and isinstance(x.pattern, ast.MatchValue):
-            for c in calls_in(x):
-                if call_name(c).endswith('.interpolate'):
-                    pairs[norm(x.pattern.value)] = norm(c.args[1])
-    ok = pairs == {'SimpleFlightRules.CLIMB': 'ROCDFilter.POSITIVE', 'SimpleFlightRules.CRUISE': 'ROCDFilter.ZERO',
-                   'SimpleFlightRules.DESCEND': 'ROCDFilter.NEGATIVE'}
-    ctx.ob('C06-R6', ev, f'phase → sub-table {pairs}', ok, 'climb/cruise/descent use positive/zero/negative ROCD rows' if ok else
-           'a flight phase evaluates the wrong sub-table')
-    sb = m.func('PerformanceTable.subset')
-    arms = {}
-    for x in walk_no_nested(sb.node):
-        if isinstance(x, ast.match_case) and isinstance(x.pattern, ast.MatchValue):
-            arms[norm(x.pattern.value).split('.')[-1]] = ' '.join(norm(s) for s in x.body)
-    ok = 'df_new.rocd < -self.ZERO_ROCD_TOL' in arms.get('NEGATIVE', '') and 'df_new.rocd > self.ZERO_ROCD_TOL' in arms.get('POSITIVE', '') \
-        and 'df_new.rocd >= -self.ZERO_ROCD_TOL' in arms.get('ZERO', '') and 'df_new.rocd <= self.ZERO_ROCD_TOL' in arms.get('ZERO', '')
-    ctx.ob('C06-R6', sb, 'sub-table filters partition the ROCD axis with one tolerance', ok,
-           '< −tol | [−tol, tol] | > tol' if ok else 'the three ROCD filters overlap or leave a gap')
-
-
-def rule_ptf(ctx):
+    """R4 / R6, decided on the same end-to-end paths as R2 by evaluating the path conditions for each scenario."""
     prog = ctx.prog
-    mk = prog.module(MK)
-    bt = mk.func('build_performance_table')
-    pt = prog.module(PTF)
-    cols = single_def_value(bt.node, 'cols')
-    colnames = [e.value for e in cols.elts] if isinstance(cols, ast.List) else []
-    ok = colnames == ['fl', 'mass', 'tas', 'rocd', 'fuel_flow']
-    ctx.ob('C06-R5', bt, f'columns {colnames}', ok, 'fl, mass, tas, rocd, fuel_flow' if ok else 'column order changed', nontrivial=False)
-    rec_fields = {'climb': set(pt.cls('ClimbPhaseData').annotated_fields()), 'cruise': set(pt.cls('CruisePhaseData').annotated_fields()),
-                  'descent': set(pt.cls('DescentPhaseData').annotated_fields())}
-    suffix_of_mass = {'low_mass': 'low', 'nominal_mass': 'nom', 'high_mass': 'high'}
-    nrows = 0
-    masses_per_phase = {}
-    for lp in [n for n in walk_no_nested(bt.node) if isinstance(n, ast.For)]:
-        phase = norm(lp.iter).split('.')[-1]
-        for c in calls_in(lp):
-            if call_name(c) == 'data.append' and isinstance(c.args[0], ast.List):
-                row = c.args[0].elts
-                nrows += 1
-                if len(row) != len(colnames):
-                    ctx.ob('C06-R5', bt, f'{phase} row has {len(row)} entries', False, 'row length differs from the column list', line=c.lineno)
+    eng, model, evf, paths, fields = evaluate_paths(ctx)
+    m = prog.module(LEG)
+    consts = _units_consts(prog)
+    rets = [p for p in paths if p.kind == 'return' and p.outputs]
+    table_cls = m.cls('PerformanceTable')
+    axis = RocdAxis(table_cls)
+
+    def interp_event(p):
+        return next((e for e in p.interp.values() if e is not None and e.name == INTERPN), None)
+    use = [(p, interp_event(p)) for p in rets]
+    use = [(p, e) for p, e in use if e is not None]
+    if not use:
+        ctx.undecided('C06-R4', evf, 'evaluate', 'no interpolation reached from evaluate()')
+
+    # ---- R6: altitude -> flight level with METERS_TO_FL
+    want = consts.get('METERS_TO_FL')
+    seen = set()
+    for p, e in use:
+        comps = _point_elements(e.arg(2, 'xi'))
+        if not comps:
+            continue
+        k = canon(comps[0])
+        if k in seen:
+            continue
+        seen.add(k)
+        c = _coefficient(_nf(comps[0], consts), 'state.altitude')
+        ok = c is not None and want is not None and c == want
+        ctx.ob('C06-R6', e.fi, f'flight level of the query = {k[:70]}', ok,
+               'altitude in metres converted with METERS_TO_FL' if ok else
+               f'altitude is converted to flight level with the wrong factor ({float(c):.9g} per metre, METERS_TO_FL is {float(want):.9g})'
+               if c is not None and want is not None else 'flight level of the query is not the converted altitude', line=e.line)
+
+    # ---- R4: symbolic masses mean the table's extreme masses
+    def is_mass(n):
+        return isinstance(n, ast.Attribute) and canon(n) == 'state.aircraft_mass'
+    needs_sorted = any(isinstance(c, ast.Subscript) and isinstance(c.value, ast.Attribute) and c.value.attr == 'mass'
+                       for p, e in use for c in (_point_elements(e.arg(2, 'xi')) or [])[1:2])
+    sample = [2.0, 3.0, 1.0]
+    sorted_note = ''
+    if needs_sorted:
+        sites = _table_ctor_sites(ctx, table_cls)
+        vals = [s.arg(None, 'mass') for s in sites]
+        if sites and all(v is not None and _is_sorted_unique(v) is not None for v in vals):
+            sample = [1.0, 2.0, 3.0]
+            sorted_note = ' (every constructor of the table passes an ascending mass list)'
+        else:
+            bad = next((v for v in vals if v is not None and _is_sorted_unique(v) is None), None)
+            sorted_note = (f' (the table\'s mass list is built as `{canon(bad)[:60]}`, which is not in ascending order)' if bad is not None
+                           else ' (the table\'s mass list is not known to be in ascending order)')
+    for scen, expect, what in (('min', min(sample), "'min' → lowest table mass"), ('max', max(sample), "'max' → highest table mass"),
+                               (61234.5, 61234.5, 'a numeric mass is used as given')):
+        def atom(n, scen=scen):
+            if is_mass(n):
+                return scen
+            if isinstance(n, ast.Attribute) and n.attr == 'mass' and canon(n) != 'state.aircraft_mass':
+                return list(sample)
+            return NotImplemented
+        verdicts = []
+        for p, e in use:
+            comps = _point_elements(e.arg(2, 'xi')) or []
+            if len(comps) != 2:
+                continue
+            tk = _taken(p.st.pc, atom, is_mass)
+            if tk is False:
+                continue
+            try:
+                got = ceval(comps[1], {}, atom)
+            except Exception:
+                got = Unknown
+            verdicts.append((tk, got, comps[1], e))
+        if not verdicts:
+            ctx.undecided('C06-R4', evf, f'mass scenario {scen!r}', 'no two-dimensional interpolation is reached for this mass')
+        bad = [(tk, got, c, e) for tk, got, c, e in verdicts if got is Unknown or got != expect]
+        sure_bad = [b for b in bad if b[0] is True and b[1] is not Unknown]
+        if bad and not sure_bad:
+            ctx.undecided('C06-R4', bad[0][3].fi, canon(bad[0][2])[:80], f'cannot evaluate the mass coordinate for aircraft_mass={scen!r}')
+        e0 = (sure_bad or verdicts)[0][3]
+        c0 = (sure_bad or verdicts)[0][2]
+        ctx.ob('C06-R4', e0.fi, f'aircraft_mass={scen!r}: mass coordinate {canon(c0)[:60]}', not sure_bad,
+               what if not sure_bad else
+               (f'with aircraft_mass={scen!r} the model interpolates at `{canon(c0)[:60]}`, which is not the table\'s '
+                f'{"lowest" if scen == "min" else "highest" if scen == "max" else "given"} mass' + sorted_note), line=e0.line)
+
+    # ---- R6: flight phase -> sub-table
+    rules_cls = prog.cls('performance/types.py', 'SimpleFlightRules')
+    members = _enum_members(rules_cls)
+    unknown_members = [x for x in members if x not in PHASE_BAND]
+    if unknown_members:
+        ctx.undecided('C06-R6', evf, f'flight rules {unknown_members}', 'flight phase without a documented sub-table')
+
+    def band_of_interpolator(I):
+        """band of the sub-table an interpolator object was built from / is cached under, and how it is known"""
+        if isinstance(I, ast.Subscript):
+            d = _dotted_const(I.slice)
+            if d:
+                return FILTER_BAND.get(d.rsplit('.', 1)[-1]), f'cached under {d}'
+        if isinstance(I, ast.Call) and isinstance(I.func, ast.Attribute) and I.func.attr in ('get', 'setdefault', 'pop') and I.args:
+            d = _dotted_const(I.args[0])
+            if d:
+                return FILTER_BAND.get(d.rsplit('.', 1)[-1]), f'cached under {d}'
+        if isinstance(I, ast.Call) and I.args:
+            tb, mask = _split_filter(I.args[0])
+            if mask is not None:
+                return axis.mask_band(mask, tb)[0], f'built from rows where {canon(mask)[:50]}'
+        return None, canon(I)[:60]
+    for X in members:
+        def atom(n, X=X):
+            if isinstance(n, ast.Name) and n.id == 'rules':
+                return Sym(f'{rules_cls.name}.{X}')
+            return NotImplemented
+        got = []
+        for p, e in use:
+            tk = _taken(p.st.pc, atom, lambda n: isinstance(n, ast.Name) and n.id == 'rules')
+            if tk is False:
+                continue
+            b, how = band_of_interpolator(e.self_val)
+            got.append((b, how, e))
+        if not got:
+            ctx.ob('C06-R6', evf, f'{X} evaluates a sub-table', False, f'no interpolation is reached for flight rule {X}')
+            continue
+        und = [g for g in got if g[0] is None]
+        bad = [g for g in got if g[0] is not None and g[0] != PHASE_BAND[X]]
+        if und and not bad:
+            ctx.undecided('C06-R6', und[0][2].fi, und[0][1], f'sub-table evaluated for {X} not recognised')
+        names = {'P': 'positive', 'Z': 'zero', 'N': 'negative'}
+        ctx.ob('C06-R6', evf, f'{X} → {sorted({names.get(g[0], "?") for g in got})} ROCD rows', not bad,
+               f'{X} uses the {names[PHASE_BAND[X]]}-ROCD sub-table' if not bad else
+               f'flight phase {X} evaluates the {names.get(bad[0][0])}-ROCD sub-table ({bad[0][1]})',
+               line=(bad[0][2].line if bad else evf.node.lineno))
+    # the interpolator cached under a key is the one built from that key's rows, of the same table
+    nst = 0
+    seen = set()
+    for p in paths:
+        for e in p.st.events:
+            if e.kind == 'store' and isinstance(e.target, ast.Subscript) and isinstance(e.value, ast.Call) and e.value.args \
+                    and isinstance(e.value.func, ast.Name) and isinstance(e.target.value, ast.Attribute):
+                d = _dotted_const(e.target.slice)
+                tb, mask = _split_filter(e.value.args[0])
+                if d is None or mask is None:
                     continue
-                mass_attr = norm(row[1]).split('.')[-1]
-                msuf = suffix_of_mass.get(mass_attr)
-                masses_per_phase.setdefault(phase, []).append(msuf)
-                problems = []
-                if norm(row[0]) != 'r.fl':
-                    problems.append(f'fl column receives {norm(row[0])}')
-                if norm(row[2]) != 'r.tas':
-                    problems.append(f'tas column receives {norm(row[2])}')
-                for pos, q in ((3, 'rocd'), (4, 'fuel_flow')):
-                    v = row[pos]
-                    if isinstance(v, ast.Constant):
-                        if not (phase == 'cruise' and q == 'rocd' and v.value == 0.0):
-                            problems.append(f'{q} column receives constant {v.value}')
-                        continue
-                    a = norm(v).split('.')[-1]
-                    if not a.startswith(q):
-                        problems.append(f'{q} column receives {norm(v)}')
-                        continue
-                    s = a[len(q) + 1:]
-                    if s != msuf and f'{q}_{msuf}' in rec_fields.get(phase, set()):
-                        problems.append(f'{mass_attr} row takes {a} although the {phase} record has {q}_{msuf}')
-                ctx.ob('C06-R5', bt, f'{phase} row [{", ".join(norm(e) for e in row)}]', not problems,
-                       'mass and mass-dependent columns agree' if not problems else '; '.join(problems), line=c.lineno)
-    ctx.floor('C06-R5', nrows, 7, 'generated table rows')
-    want = {'climb': ['low', 'nom', 'high'], 'cruise': ['low', 'nom', 'high'], 'descent': ['nom']}
-    for ph, w in want.items():
-        ok = sorted(masses_per_phase.get(ph, [])) == sorted(w)
-        ctx.ob('C06-R5', bt, f'{ph} rows for masses {masses_per_phase.get(ph)}', ok, 'every PTF column of the phase is emitted once' if ok
-               else f'{ph} rows are missing or duplicated for some mass')
-    # loader conversions
-    ld = pt.func('PTFData.load')
-    conv = {'tas': ('*', 'KNOTS_TO_MPS'), 'rocd': ('*', 'FPM_TO_MPS'), 'fuel_flow': ('/', 'MINUTES_TO_SECONDS')}
-    order = {'CruisePhaseData': ['tas', 'fuel_flow_low', 'fuel_flow_nom', 'fuel_flow_high'],
-             'ClimbPhaseData': ['tas', 'rocd_low', 'rocd_nom', 'rocd_high', 'fuel_flow_nom'],
-             'DescentPhaseData': ['tas', 'rocd_nom', 'fuel_flow_nom']}
-    nconv = 0
-    for c in calls_in(ld.node):
-        cn = call_name(c)
-        if cn in order:
-            for k in c.keywords:
-                if k.arg == 'fl':
-                    ok = norm(k.value) == 'fl'
-                    ctx.ob('C06-R5', ld, f'{cn}.fl = {norm(k.value)}', ok, 'row flight level' if ok else 'flight level of the row is altered', line=k.value.lineno, nontrivial=False)
+                k = (d, canon(mask))
+                if k in seen:
                     continue
-                q = next(x for x in conv if k.arg.startswith(x))
-                op, const = conv[q]
-                v = k.value
-                neg = False
-                okc = isinstance(v, ast.BinOp) and norm(v.right) == const and \
-                    ((op == '*' and isinstance(v.op, ast.Mult)) or (op == '/' and isinstance(v.op, ast.Div)))
-                idx = None
-                if okc:
-                    left = v.left
-                    if isinstance(left, ast.UnaryOp) and isinstance(left.op, ast.USub):
-                        neg, left = True, left.operand
-                    if isinstance(left, ast.Call) and call_name(left) == 'float' and isinstance(left.args[0], ast.Subscript):
-                        idx = left.args[0].slice.value if isinstance(left.args[0].slice, ast.Constant) else None
-                want_idx = order[cn].index(k.arg)
-                want_neg = (cn == 'DescentPhaseData' and q == 'rocd')
-                ok = okc and idx == want_idx and neg == want_neg
-                nconv += 1
-                why = f'column {want_idx} {op} {const}' + (' negated (descent)' if want_neg else '')
-                if not okc:
-                    why = f'{k.arg} is not converted with {op} {const}'
-                elif idx != want_idx:
-                    why = f'{k.arg} reads PTF column {idx}, expected column {want_idx}'
-                elif neg != want_neg:
-                    why = 'descent ROCD sign convention broken' if want_neg else f'{k.arg} is negated'
-                ctx.ob('C06-R5', ld, f'{cn}.{k.arg} = {norm(v)}', ok, why, line=v.lineno)
-    ctx.floor('C06-R5/conv', nconv, 12, 'PTF field conversions')
-    # rows skipped only for documented reasons
-    cap = next((n for n in walk_no_nested(ld.node) if isinstance(n, ast.If) and norm(n.test) == 'capture' and
-                any('parts' in norm(s) for s in n.body)), None)
-    if cap is None:
-        ctx.undecided('C06-R5', ld, 'if capture:', 'table-row section not found')
-    for n in ast.walk(cap):
-        if isinstance(n, ast.Continue):
-            gs = [norm(t) for t, pol, _ in guards_of(n, stop=cap)]
-            in_exc = any(isinstance(a, ast.ExceptHandler) and a.type is not None and norm(a.type) == 'ValueError' for a in ancestors(n))
-            ok = gs == ['len(parts) < 4'] or (in_exc and not gs)
-            ctx.ob('C06-R5', ld, f'table row skipped under {gs or "except ValueError"}', ok,
-                   'separator / non-numeric line' if ok else
-                   'a data row can be skipped for another reason (e.g. a truthiness test drops flight level 0)', line=n.lineno)
-    flparse = [st for t, st, how in stores_to(cap) if isinstance(t, ast.Name) and t.id == 'fl']
-    ok = len(flparse) == 1 and norm(flparse[0].value) == 'int(parts[0].strip())'
-    ctx.ob('C06-R5', ld, f'fl = {norm(flparse[0].value) if flparse else "?"}', ok, 'first column parsed as integer' if ok else
-           'flight level parsing changed')
-    # sections: parts[1]=cruise, [2]=climb, [3]=descent
-    sec = {}
-    for t, st, how in stores_to(cap):
-        if isinstance(t, ast.Name) and t.id.endswith('_str') and isinstance(st.value, ast.Subscript):
-            sec[t.id] = norm(st.value)
-    ok = sec == {'cruise_str': 'parts[1]', 'climb_str': 'parts[2]', 'descent_str': 'parts[3]'}
-    ctx.ob('C06-R5', ld, f'PTF sections {sec}', ok, 'cruise | climb | descent column blocks' if ok else 'phase blocks read from the wrong PTF section')
+                seen.add(k)
+                nst += 1
+                b = axis.mask_band(mask, tb)[0]
+                same_table = canon(tb).startswith(canon(e.target.value.value) + '.')
+                ok = b is not None and b == FILTER_BAND.get(d.rsplit('.', 1)[-1]) and same_table
+                ctx.ob('C06-R6', e.fi, f'interpolator cached under {d} is built from rows where {canon(mask)[:60]}', ok,
+                       'key and sub-table agree' if ok else
+                       'phase interpolator cache key and the sub-table it was built from disagree', line=e.line)
+    ctx.floor('C06-R6/cache', nst, 3, 'interpolators cached per phase filter')
+
+    # ---- R6: the three sub-table filters partition the ROCD axis with one tolerance
+    sb = next((f for f in table_cls.methods.values() if any(
+        (isinstance(a.annotation, (ast.Name, ast.Constant)) and 'ROCDFilter' in ast.unparse(a.annotation)) for a in f.node.args.args)
+        and any(k is table_cls for k in [prog.resolve_class_expr(f.module, c.func) for c in calls_in(f.node)
+                                         if isinstance(c.func, ast.Name)])), None)
+    if sb is None:
+        sb = table_cls.find_method('subset')
+    if sb is None:
+        ctx.undecided('C06-R6', evf, 'subset', 'sub-table extraction method not found')
+    eng2 = Engine(prog)
+    pname = sb.params[1] if len(sb.params) > 1 else 'rocd'
+    try:
+        outs = eng2.run(sb, self_cls=table_cls, args={pname: _name('which')})
+    except Undecided as ex:
+        ctx.undecided('C06-R6', sb, 'subset', str(ex))
+    fcls = m.cls('ROCDFilter')
+    bands = {}
+    for X in _enum_members(fcls):
+        def atom(n, X=X):
+            if isinstance(n, ast.Name) and n.id == 'which':
+                return Sym(f'{fcls.name}.{X}')
+            return NotImplemented
+        for kind, val, st in outs:
+            if kind != 'return' or _taken(st.pc, atom, lambda n: isinstance(n, ast.Name) and n.id == 'which') is False:
+                continue
+            dfv = next((k.value for k in val.keywords if k.arg == 'df'), None) if isinstance(val, ast.Call) else None
+            if dfv is None:
+                ctx.undecided('C06-R6', sb, canon(val)[:80], 'sub-table is not returned as a table built from filtered rows')
+            tb, mask = _split_filter(dfv)
+            if mask is None:
+                bands.setdefault(X, []).append((None, frozenset(range(7)), dfv))
+            else:
+                b, idx = axis.mask_band(mask, tb)
+                if idx is None:
+                    ctx.undecided('C06-R6', sb, canon(mask)[:80], 'row filter cannot be evaluated on the ROCD axis')
+                bands.setdefault(X, []).append((b, idx, mask))
+    ok = set(bands) == set(FILTER_BAND) and all(len(v) == 1 and v[0][0] == FILTER_BAND[X] for X, v in bands.items())
+    if ok:
+        allidx = [v[0][1] for v in bands.values()]
+        ok = frozenset().union(*allidx) == frozenset(range(7)) and sum(len(i) for i in allidx) == 7
+    ctx.ob('C06-R6', sb, 'sub-table filters partition the ROCD axis with one tolerance', ok,
+           '< −tol | [−tol, tol] | > tol' if ok else
+           'the three ROCD filters overlap, leave a gap, or select the wrong sign: '
+           + '; '.join(f'{X}: {canon(v[0][2])[:50]}' for X, v in sorted(bands.items())))
+
+
+# ======================================================================================================
+# R3 -- load-time validation
+# ======================================================================================================
+def _count_atoms(e, table_of):
+    """rewrite the row / distinct-value counts in e into names the algebra can multiply:
+    N__<t> rows of sub-table t; NU__<t>__<cols> distinct combinations of the columns; LEN__<x> length of a list attribute.
+    table_of(expr) -> sub-table id or None.  Returns the rewritten expression (counts it cannot name stay as written)."""
+    def cols_of(x):
+        if isinstance(x, ast.Constant) and isinstance(x.value, str):
+            return [x.value]
+        if isinstance(x, (ast.List, ast.Tuple)) and all(isinstance(y, ast.Constant) and isinstance(y.value, str) for y in x.elts):
+            return [y.value for y in x.elts]
+        return None
+
+    def distinct(x):
+        """(table id, cols) when x is a collection with one entry per distinct combination of columns"""
+        if isinstance(x, ast.Call) and isinstance(x.func, ast.Attribute):
+            a, o = x.func.attr, x.func.value
+            if a in ('unique', 'drop_duplicates') and not x.args and not x.keywords:
+                c = _col_of(o)
+                if c and table_of(c[0]):
+                    return table_of(c[0]), [c[1]]
+                # T[['a', 'b']].drop_duplicates()
+                if isinstance(o, ast.Subscript) and cols_of(o.slice) and table_of(o.value):
+                    return table_of(o.value), cols_of(o.slice)
+            if a == 'drop_duplicates' and table_of(o):
+                sub = x.args[0] if x.args else kwarg(x, 'subset')
+                if sub is not None and cols_of(sub) and len(x.args) + len(x.keywords) == 1:
+                    return table_of(o), cols_of(sub)
+            if a == 'groupby' and table_of(o) and x.args and cols_of(x.args[0]) and not x.keywords:
+                return table_of(o), cols_of(x.args[0])
+        if isinstance(x, ast.Call) and canon(x.func) in ('set', 'np.unique', 'numpy.unique', 'pd.unique') and len(x.args) == 1 and not x.keywords:
+            c = _values_of_column(x.args[0])
+            if c and table_of(c[0]):
+                return table_of(c[0]), [c[1]]
+        return None
+
+    class T(ast.NodeTransformer):
+        def visit(self, n):
+            if isinstance(n, ast.Call) and canon(n.func) == 'len' and len(n.args) == 1 and not n.keywords:
+                a = n.args[0]
+                d = distinct(a)
+                if d:
+                    return _name(f'NU__{d[0]}__' + '_'.join(sorted(d[1])))
+                if table_of(a):
+                    return _name(f'N__{table_of(a)}')
+                if isinstance(a, ast.Attribute) and a.attr == 'index' and table_of(a.value):
+                    return _name(f'N__{table_of(a.value)}')
+                if isinstance(a, ast.Attribute) and isinstance(a.value, ast.Name) and a.value.id == 'self':
+                    return _name(f'LEN__{a.attr}')
+            if isinstance(n, ast.Call) and isinstance(n.func, ast.Attribute) and n.func.attr == 'nunique' and not n.args and not n.keywords:
+                c = _col_of(n.func.value)
+                if c and table_of(c[0]):
+                    return _name(f'NU__{table_of(c[0])}__{c[1]}')
+            if isinstance(n, ast.Attribute) and n.attr == 'ngroups':
+                d = distinct(n.value)
+                if d:
+                    return _name(f'NU__{d[0]}__' + '_'.join(sorted(d[1])))
+            if isinstance(n, ast.Subscript) and isinstance(n.value, ast.Attribute) and n.value.attr == 'shape' \
+                    and const_value(n.slice) == 0 and table_of(n.value.value):
+                return _name(f'N__{table_of(n.value.value)}')
+            return self.generic_visit(n)
+    return T().visit(clone(e))
+
+
+def _grid_fact(cond, pol, table_of):
+    """what a path-condition literal says about the counts: ('eq' | 'ne' | 'weak', polynomial text, Rat) or None"""
+    if not (isinstance(cond, ast.Compare) and len(cond.ops) == 1):
+        return None
+    op = cond.ops[0]
+    l, r = _count_atoms(cond.left, table_of), _count_atoms(cond.comparators[0], table_of)
+    names = {n.id for x in (l, r) for n in ast.walk(x) if isinstance(n, ast.Name)}
+    if not any(n.startswith(('N__', 'NU__', 'LEN__')) for n in names):
+        return None
+    try:
+        nf = normal_form(ast.BinOp(left=l, op=ast.Sub(), right=r), {}, {})
+    except AlgebraError:
+        return ('weak', canon(cond), None)
+    if isinstance(op, (ast.Eq, ast.NotEq)):
+        return ('eq' if isinstance(op, ast.Eq) == pol else 'ne', canon(cond), nf)
+    return ('weak', canon(cond), nf)
+
+
+def _same_up_to_sign(a, b) -> bool:
+    return poly_equal(a, b) or (a + b).is_zero()
+
+
+def rule_validation(ctx):
+    """R3.  (a) A load-time hook of the model builds the performance table, unprotected, on every path, and keeps it
+    where evaluate() reads it.  (b) Every normal path through the table's own initialisation has established, by a
+    test whose other branch leaves by `raise`, each of: the mass count, full FL x mass coverage of the three ROCD
+    sub-tables, and the six columns that may depend on flight level only -- wherever the tests are written (nested
+    closures, module helpers, loops over literal tables)."""
+    prog = ctx.prog
+    m = prog.module(LEG)
+    eng0, model, evf, paths, _ = evaluate_paths(ctx)
+    table_cls = m.cls('PerformanceTable')
+    axis = RocdAxis(table_cls)
+
+    # ---- (a) load-time hook
+    hooks = [f for c in model.mro() for f in c.methods.values()
+             if f.file == m.relpath and (any(d.split('(')[0].split('.')[-1] in ('model_validator', 'field_validator') for d in f.decorators())
+                                         or f.name == 'model_post_init')]
+    roots = {canon(e.self_val) for p in paths for e in p.st.events
+             if e.fi.cls is not None and e.fi.cls.name == table_cls.name and e.self_val is not None and isinstance(e.self_val, ast.Attribute)}
+    built = None
+    problems = []
+    for h in hooks:
+        eng = Engine(prog)
+        try:
+            outs = eng.run(h, self_cls=model)
+        except Undecided as ex:
+            ctx.undecided('C06-R3', h, h.name, str(ex))
+        normal = [(k, v, st) for k, v, st in outs if k == 'return']
+        ctor_paths = [(st, [e for e in st.events if e.kind == 'ctor' and e.cls is table_cls]) for _, _, st in normal]
+        if not any(evs for _, evs in ctor_paths):
+            continue
+        built = h
+        for st, evs in ctor_paths:
+            if not evs:
+                problems.append('a path through the validator does not build the performance table: '
+                                + ' and '.join(f'{"" if pol else "not "}{canon(c)[:50]}' for c, pol in st.pc[:3]))
+            elif all(e.prot > 0 for e in evs):
+                problems.append('the table is built inside a try/except: a refusal of the table can be swallowed')
+            else:
+                kept = [k for k, v in st.heap.items() if isinstance(v, ast.Call) and isinstance(v.func, ast.Name) and v.func.id == table_cls.name]
+                if roots and not (set(kept) & roots):
+                    problems.append(f'the validated table is kept as {kept or "nothing"} but evaluate() reads {sorted(roots)}')
+    if built is None:
+        ctx.ob('C06-R3', (m.relpath, model.name), 'model validation builds the performance table', False,
+               'the table is no longer validated at load time (no validator of the model constructs it)')
+    else:
+        ctx.ob('C06-R3', built, 'model validation builds the performance table', not problems,
+               'load-time validator constructs the table evaluate() reads, on every path' if not problems else problems[0])
+    is_dc = any(ast.unparse(d).split('(')[0].split('.')[-1] == 'dataclass' for d in table_cls.node.decorator_list)
+    init = table_cls.find_method('__post_init__') if is_dc else None
+    if init is None:
+        init = table_cls.find_method('__init__')
+    if init is None:
+        ctx.ob('C06-R3', (m.relpath, table_cls.name), 'table construction runs the grid checks', False,
+               'the table class has no __post_init__ / __init__ that could check the grid')
+        return
+    ctx.ob('C06-R3', init, 'constructing the table runs its initialisation', True, 'dataclass __post_init__' if is_dc else '__init__',
+           nontrivial=False)
+
+    # ---- (b) the checks, on every normal path
+    eng = Engine(prog)
+    try:
+        outs = eng.run(init, self_cls=table_cls)
+    except Undecided as ex:
+        ctx.undecided('C06-R3', init, init.name, str(ex))
+    bands_seen = {}
+
+    def table_of(x):
+        tb, mask = _split_filter(x)
+        if canon(tb) not in ('self.df',):
+            return None
+        if mask is None:
+            return 'ALL'
+        b, idx = axis.mask_band(mask, tb)
+        if b is not None:
+            bands_seen[b] = idx
+        return b
+    names = {'Z': 'zero', 'P': 'positive', 'N': 'negative'}
+    required = {}
+    for t in 'ZPN':
+        required[f'coverage of the {names[t]}-ROCD sub-table (#rows = #FL × #mass)'] = f'NU__{t}__fl * NU__{t}__mass - N__{t}'
+    for t, cols in (('Z', ('tas',)), ('P', ('tas', 'fuel_flow')), ('N', ('tas', 'fuel_flow', 'rocd'))):
+        for c in cols:
+            required[f'{c} of the {names[t]}-ROCD sub-table depends on FL only'] = f'NU__{t}__' + '_'.join(sorted(['fl', c])) + f' - NU__{t}__fl'
+    req_nf = {k: normal_form(ast.parse(v, mode='eval').body, {}, {}) for k, v in required.items()}
+    normal = [(k, v, st) for k, v, st in outs if k == 'return']
+    if not normal:
+        ctx.undecided('C06-R3', init, init.name, 'no normal path through the table initialisation')
+    missing = {k: [] for k in required}
+    weakened = {}
+    mass_bad = []
+    unrecognised = []
+    looped = False
+    for _, _, st in normal:
+        facts = [f for f in (_grid_fact(c, p, table_of) for c, p in st.pc) if f is not None]
+        if any(is_sym(c, '_in_loop') for c, _ in st.pc) or any(e.loops for e in st.events):
+            looped = True
+        eqs = [f for f in facts if f[0] == 'eq' and f[2] is not None]
+        for k, want in req_nf.items():
+            if not any(_same_up_to_sign(f[2], want) for f in eqs):
+                missing[k].append(st)
+                wk = [f for f in facts if f[0] == 'weak' and f[2] is not None and _same_up_to_sign(f[2], want)]
+                if wk:
+                    weakened[k] = wk[0][1]
+        unrecognised += [f for f in facts if f[2] is None or not (
+            any(_same_up_to_sign(f[2], w) for w in req_nf.values()) or f[2].atoms() == {'LEN__mass'})]
+        # mass count: 1 for an all-negative table, 3 otherwise
+        neg = any(p and axis.gen_band(c, 'self.rocd') == 'N' for c, p in st.pc)
+        want_k = 1 if neg else 3
+        ks = [f[2] for f in eqs if f[2].atoms() == {'LEN__mass'}]
+        k_ok = any(poly_equal(k, normal_form(ast.parse(f'LEN__mass - {want_k}', mode='eval').body, {}, {}))
+                   or (k + normal_form(ast.parse(f'LEN__mass - {want_k}', mode='eval').body, {}, {})).is_zero() for k in ks)
+        if not k_ok:
+            mass_bad.append((st, want_k, ks))
+
+    def describe(st):
+        lits = [f'{"" if p else "not "}{canon(c)[:60]}' for c, p in st.pc if not is_sym(c, '_in_loop')][:2]
+        return ' and '.join(lits) if lits else 'unconditionally'
+    rets = [n for n in walk_no_nested(init.node) if isinstance(n, ast.Return)]
+    any_missing = any(missing.values()) or mass_bad
+    if any_missing and (looped or unrecognised):
+        what = unrecognised[0][1][:80] if unrecognised else 'loop over a table the analysis cannot enumerate'
+        ctx.undecided('C06-R3', init, what, 'a refusal condition of the table initialisation is not recognised as one of the grid checks')
+    for k in required:
+        ok = not missing[k]
+        ctx.ob('C06-R3', init, f'every accepted table passed: {k}', ok,
+               'established on every normal path, refusal by raise' if ok else
+               (f'the check is weakened to the inequality `{weakened[k][:90]}`: tables whose counts differ the other way are accepted'
+                if k in weakened else
+                f'a table is accepted without this check when {describe(missing[k][0])}'
+                + (f' (early `return` at line {rets[0].lineno})' if rets else '')
+                + ': some tables are accepted without the complete-grid / FL-only checks'),
+               line=(rets[0].lineno if rets and not ok else init.node.lineno))
+    ok = not mass_bad
+    ctx.ob('C06-R3', init, 'every accepted table has the right number of mass values (1 for a descent table, 3 otherwise)', ok,
+           'len(mass) checked against 1 / 3 on every normal path, refusal by raise' if ok else
+           f'the number of mass values is not checked against {mass_bad[0][1]} when {describe(mass_bad[0][0])}')
+    # the sub-tables the checks run on are the three bands of the ROCD axis
+    ok = set(bands_seen) == {'Z', 'P', 'N'} and frozenset().union(*bands_seen.values()) == frozenset(range(7)) \
+        and sum(len(v) for v in bands_seen.values()) == 7
+    ctx.ob('C06-R3', init, 'the checked sub-tables partition the ROCD axis', ok,
+           '< −tol | [−tol, tol] | > tol' if ok else 'the sub-tables that are checked overlap or leave a gap', nontrivial=False)
+
+
+# ======================================================================================================
+# R7 -- coordinate <-> value layout of the interpolator
+# ======================================================================================================
+def _sorted_rows(e):
+    """(table expr, column) when e is a table whose rows are in ascending order of a column:
+    T.sort_values('c') / by='c' / ['c'] (not descending), T.set_index('c').sort_index()"""
+    while isinstance(e, ast.Call) and isinstance(e.func, ast.Attribute) and e.func.attr in ('reset_index', 'copy'):
+        e = e.func.value
+    if isinstance(e, ast.Call) and isinstance(e.func, ast.Attribute) and e.func.attr == 'sort_values':
+        by = e.args[0] if e.args else kwarg(e, 'by')
+        asc = kwarg(e, 'ascending')
+        desc = False
+        if asc is not None and not (isinstance(asc, ast.Constant) and asc.value is True):
+            if not (isinstance(asc, ast.Constant) and asc.value is False):
+                return None
+            desc = True
+        if kwarg(e, 'inplace') is not None or kwarg(e, 'key') is not None:
+            return None
+        if isinstance(by, (ast.List, ast.Tuple)) and by.elts:
+            by = by.elts[0]
+        if isinstance(by, ast.Constant) and isinstance(by.value, str):
+            return e.func.value, ('-' if desc else '') + by.value
+    if isinstance(e, ast.Call) and isinstance(e.func, ast.Attribute) and e.func.attr == 'sort_index' and not e.args and not e.keywords:
+        o = e.func.value
+        if isinstance(o, ast.Call) and isinstance(o.func, ast.Attribute) and o.func.attr == 'set_index' and len(o.args) == 1 \
+                and isinstance(o.args[0], ast.Constant):
+            return o.func.value, o.args[0].value
+    return None
 
 
 def rule_layout(ctx):
-    m = ctx.prog.module(LEG)
-    it = m.func('Interpolator.__init__')
-    src = ' '.join(norm(s) for s in it.node.body)
-    ok = 'fls = sorted((float(fl) for fl in df.fl.unique()))' in src and 'masses = sorted((float(m) for m in df.mass.unique()))' in src
-    ctx.ob('C06-R7', it, 'coordinates are the sorted unique levels and masses', ok, 'sorted unique values' if ok else 'coordinate arrays changed')
-    # 2-D branch
-    loop = next((n for n in walk_no_nested(it.node) if isinstance(n, ast.For) and 'itertuples' in norm(n.iter)), None)
-    ok = False
-    if loop is not None:
-        b = ' '.join(norm(s) for s in loop.body)
-        ok = 'i = fls.index(row.fl)' in b and 'j = masses.index(row.mass)' in b and all(
-            f'self.{q}[i, j] = row.{q}' in b for q in ('tas', 'rocd', 'fuel_flow'))
-    ctx.ob('C06-R7', it, '2-D branch: value[i, j] placed by coordinate lookup, same-named column', ok,
-           'i from FL, j from mass' if ok else 'grid fill-in no longer matches the (FL, mass) coordinate order')
-    xs2 = [st for t, st, how in stores_to(it.node) if norm(t) == 'self.xs']
-    ok = len(xs2) == 2 and {norm(x.value) for x in xs2} == {'(np.array(fls), np.array(masses))', '(np.array(fls),)'}
-    ctx.ob('C06-R7', it, 'grid axes (FL, mass) / (FL,)', ok, 'axis order matches the query tuple' if ok else 'grid axes order changed')
-    shp = single_def_value(it.node, 'shape')
-    ok = shp is not None and norm(shp) == '(len(fls), len(masses))'
-    ctx.ob('C06-R7', it, 'value arrays shaped (levels, masses)', ok, norm(shp) if ok else 'shape changed', nontrivial=False)
-    # 1-D branch: values must be ordered like the sorted coordinate
-    one = [st for t, st, how in stores_to(it.node) if norm(t) in ('self.tas', 'self.rocd', 'self.fuel_flow')
-           and 'df.' in norm(st.value)]
-    ctx.floor('C06-R7', len(one), 3, 'single-mass value arrays')
-    for st in one:
-        sorted_before = [s for t, s, how in stores_to(it.node) if isinstance(t, ast.Name) and t.id == 'df'
-                         and isinstance(s.value, ast.Call) and call_name(s.value) == 'df.sort_values'
-                         and s.value.args and norm(s.value.args[0]) == "'fl'" and s.lineno < st.lineno
-                         and getattr(s, '_parent', None) is getattr(st, '_parent', None)
-                         and not any(k.arg == 'ascending' for k in s.value.keywords)]
-        q = norm(st.targets[0]).split('.')[-1]
-        same = norm(st.value) == f'df.{q}.values'
-        ok = bool(sorted_before) and same
-        ctx.ob('C06-R7', it, f'single-mass {norm(st)}', ok,
-               'rows sorted by flight level before the values are taken' if ok else
-               ('value array and coordinate array are ordered differently: the coordinate is sorted, the values '
-                'are in input row order, so a table whose rows are not in ascending flight-level order returns '
-                'the wrong row' if same else 'value taken from a different column'), line=st.lineno)
+    """R7.  Per path through the interpolator's constructor: every axis of the grid is the ascending list of the
+    distinct values of one table column; the query point of __call__ has the same columns in the same order; a value
+    table is filled at [index of the row's own FL, index of the row's own mass] from the column its output names
+    (two axes), or is that column of the rows sorted by the axis column (one axis)."""
+    prog = ctx.prog
+    m = prog.module(LEG)
+    eng0, model, evf, paths, fields = evaluate_paths(ctx)
+    rets = [p for p in paths if p.kind == 'return' and p.outputs]
+    # which attributes of which class the interpolation reads
+    gattr, vattr, icls = None, {}, None
+    for p in rets:
+        for f, e in p.interp.items():
+            if e is not None and e.name == INTERPN and isinstance(e.arg(0, 'points'), ast.Attribute) and isinstance(e.arg(1, 'values'), ast.Attribute):
+                gattr = e.arg(0, 'points').attr
+                vattr[f] = e.arg(1, 'values').attr
+                icls = e.fi.cls
+    if gattr is None or icls is None or set(vattr) != set(OUTPUT_COLUMN):
+        ctx.undecided('C06-R7', evf, 'interpolator layout', 'grid / value tables of the interpolation not identified (see C06-R2)')
+    init = icls.find_method('__init__')
+    if init is None:
+        ctx.undecided('C06-R7', (m.relpath, icls.name), '__init__', 'interpolator has no constructor')
+    eng = Engine(prog)
+    dfp = init.params[1] if len(init.params) > 1 else 'df'
+    try:
+        outs = eng.run(init, self_cls=icls, args={dfp: _name('df')})
+    except Undecided as ex:
+        ctx.undecided('C06-R7', init, '__init__', str(ex))
+    normal = [st for k, v, st in outs if k == 'return']
+    # several states may differ only in the symbolic loop iteration: group by grid value
+    by_grid = {}
+    for st in normal:
+        g = st.heap.get(f'self.{gattr}')
+        if g is None:
+            ctx.ob('C06-R7', init, f'self.{gattr} set on every path', False, f'a path through the constructor leaves the grid self.{gattr} unset')
+            return
+        by_grid.setdefault(canon(g), []).append(st)
+    dims_seen = {}
+    n1 = 0
+    for gtxt, sts in by_grid.items():
+        g = sts[0].heap[f'self.{gattr}']
+        axes = g.elts if isinstance(g, (ast.Tuple, ast.List)) else None
+        if axes is None:
+            ctx.undecided('C06-R7', init, gtxt[:80], 'grid is not written as a tuple of coordinate arrays')
+        roles = []
+        for a in axes:
+            su = _is_sorted_unique(a)
+            if su is None or canon(su[0]) != 'df':
+                # a descending / unsorted axis is a definite fault, anything else is not understood
+                inner = a
+                while isinstance(inner, ast.Call) and dotted_name(inner.func) in ('np.array', 'np.asarray', 'list', 'tuple') and inner.args:
+                    inner = inner.args[0]
+                desc = isinstance(inner, ast.Call) and canon(inner.func) == 'sorted' and kwarg(inner, 'reverse') is not None
+                col = next((c[1] for n in ast.walk(a) for c in [_col_of(n)] if c and canon(c[0]) == 'df'), None)
+                if desc or (col is not None and not any(isinstance(n, ast.Call) and canon(n.func).split('.')[-1] in ('sorted', 'sort', 'unique', 'sort_values')
+                                                        for n in ast.walk(a))):
+                    ctx.ob('C06-R7', init, f'grid axis {canon(a)[:60]}', False,
+                           'the coordinate array is not the ascending list of the distinct values of its column')
+                    roles.append(col)
+                    continue
+                ctx.undecided('C06-R7', init, canon(a)[:80], 'grid axis is not recognised as the sorted distinct values of a table column')
+            roles.append(su[1])
+        d = len(roles)
+        dims_seen[d] = (roles, sts)
+        ctx.ob('C06-R7', init, f'grid axes {roles}: each the ascending distinct values of its column', True, 'sorted unique values')
+        want_roles = ['fl', 'mass'][:d]
+        ok = roles == want_roles
+        ctx.ob('C06-R7', init, f'grid axes in the order of the query point ({", ".join(want_roles)})', ok,
+               'axis order matches the query tuple' if ok else f'grid axes are {roles} but the query point is ({", ".join(want_roles)})')
+        if d == 2:
+            for f, va in sorted(vattr.items()):
+                col = OUTPUT_COLUMN[f]
+                # initial allocation and its shape
+                allocs = {canon(st.heap.get(f'self.{va}')) for st in sts if st.heap.get(f'self.{va}') is not None}
+                fills = {}
+                for st in sts:
+                    for e in st.events:
+                        if e.kind == 'store' and isinstance(e.target, ast.Subscript) and canon(e.target.value) == f'self.{va}' and e.loops:
+                            fills[canon(e.target) + '=' + canon(e.value)] = e
+                if not fills:
+                    ctx.undecided('C06-R7', init, f'self.{va}', 'two-axis value table is not filled cell by cell in a loop over the rows')
+                for e in fills.values():
+                    idx = e.target.slice.elts if isinstance(e.target.slice, ast.Tuple) else [e.target.slice]
+                    prob = None
+                    if len(idx) != 2:
+                        prob = f'value table indexed with {len(idx)} indices'
+                    else:
+                        for pos, (ix, role) in enumerate(zip(idx, roles)):
+                            okix = isinstance(ix, ast.Call) and isinstance(ix.func, ast.Attribute) and ix.func.attr == 'index' and len(ix.args) == 1
+                            if not okix:
+                                ctx.undecided('C06-R7', init, canon(ix)[:80], 'cell index is not a look-up of the row\'s value in a coordinate list')
+                            lst = _is_sorted_unique(ix.func.value)
+                            key = _col_of(ix.args[0])
+                            if lst is None or key is None:
+                                ctx.undecided('C06-R7', init, canon(ix)[:80], 'cell index look-up not recognised')
+                            if lst[1] != role or key[1] != role:
+                                prob = (f'index {pos} of the cell is the position of the row\'s `{key[1]}` in the list of `{lst[1]}` values, '
+                                        f'but axis {pos} of the grid is `{role}`')
+                                break
+                        src = _col_of(e.value)
+                        if prob is None and (src is None or src[1] != col):
+                            prob = f'the table read for {f} is filled from column `{src[1] if src else canon(e.value)[:30]}`, not `{col}`'
+                        if prob is None and src is not None and not is_sym(src[0], '_each') and not (
+                                isinstance(src[0], ast.Subscript) and is_sym(src[0].value, '_each')):
+                            prob = 'cell value does not come from the row being placed'
+                    ctx.ob('C06-R7', init, f'2-D {canon(e.target)[:70]} = {canon(e.value)[:40]}', prob is None,
+                           'value[i, j] placed by coordinate lookup, i from FL, j from mass, same-named column' if prob is None else
+                           'grid fill-in no longer matches the (FL, mass) coordinate order: ' + prob, line=e.line)
+                for a in allocs:
+                    al = ast.parse(a, mode='eval').body
+                    shp = al.args[0] if isinstance(al, ast.Call) and al.args else None
+                    dims = shp.elts if isinstance(shp, (ast.Tuple, ast.List)) else None
+                    if dims is None or len(dims) != 2:
+                        ctx.undecided('C06-R7', init, a[:80], 'allocation of the value table not recognised')
+                    droles = []
+                    for dd in dims:
+                        su = _is_sorted_unique(dd.args[0]) if isinstance(dd, ast.Call) and canon(dd.func) == 'len' and len(dd.args) == 1 else None
+                        droles.append(su[1] if su else None)
+                    ok = droles == roles
+                    ctx.ob('C06-R7', init, f'self.{va} allocated with shape (#{droles[0]}, #{droles[1]})', ok,
+                           'value arrays shaped (levels, masses)' if ok else f'shape follows {droles}, grid axes are {roles}', nontrivial=False)
+        elif d == 1:
+            for f, va in sorted(vattr.items()):
+                col = OUTPUT_COLUMN[f]
+                vals = {canon(st.heap.get(f'self.{va}')): st.heap.get(f'self.{va}') for st in sts}
+                for txt, v in vals.items():
+                    n1 += 1
+                    if v is None:
+                        ctx.ob('C06-R7', init, f'single-mass self.{va}', False, 'value table not set on the single-axis path')
+                        continue
+                    c = _values_of_column(v)
+                    prob = None
+                    if c is None:
+                        # values re-ordered by an argsort of the axis column
+                        if isinstance(v, ast.Subscript) and isinstance(v.slice, ast.Call) and canon(v.slice.func).split('.')[-1] == 'argsort':
+                            c2 = _values_of_column(v.value)
+                            k = _values_of_column(v.slice.args[0] if v.slice.args else v.slice.func.value)
+                            if c2 and k and k[1] == roles[0] and canon(k[0]) == canon(c2[0]) == 'df':
+                                prob = None if c2[1] == col else f'value taken from column `{c2[1]}`, not `{col}`'
+                                ctx.ob('C06-R7', init, f'single-mass self.{va} = {txt[:60]}', prob is None,
+                                       'values re-ordered by the argsort of the axis column' if prob is None else prob)
+                                continue
+                        ctx.undecided('C06-R7', init, txt[:80], 'single-axis value table not recognised')
+                    tb, cname = c
+                    sr = _sorted_rows(tb)
+                    if cname != col:
+                        prob = f'value taken from a different column (`{cname}`, expected `{col}`)'
+                    elif sr is None and canon(tb) == 'df':
+                        prob = ('value array and coordinate array are ordered differently: the coordinate is sorted, the values '
+                                'are in input row order, so a table whose rows are not in ascending flight-level order returns the wrong row')
+                    elif sr is None:
+                        ctx.undecided('C06-R7', init, txt[:80], 'row order of the single-axis value table not recognised')
+                    elif sr[1] == '-' + roles[0] and canon(sr[0]) == 'df':
+                        prob = (f'rows are sorted by `{roles[0]}` in descending order but the axis is ascending: the value of the '
+                                'highest level is returned for the lowest')
+                    elif sr[1] != roles[0] or canon(sr[0]) != 'df':
+                        prob = f'rows are sorted by `{sr[1]}` but the axis is `{roles[0]}`'
+                    ctx.ob('C06-R7', init, f'single-mass self.{va} = {txt[:60]}', prob is None,
+                           'rows sorted by flight level before the values are taken' if prob is None else prob)
+    ctx.floor('C06-R7', n1, 3, 'single-mass value arrays')
+    if 2 not in dims_seen:
+        ctx.undecided('C06-R7', init, 'two-axis grid', 'no path through the constructor builds the (FL, mass) grid')
+    # the query point has as many components as the grid has axes, under the same condition
+    ic = icls.find_method('__call__')
+    eng3 = Engine(prog)
+    try:
+        couts = eng3.run(ic, self_cls=icls)
+    except Undecided as ex:
+        ctx.undecided('C06-R7', ic, '__call__', str(ex))
+    for k, v, st in couts:
+        ev = next((e for e in st.events if e.kind == 'call' and e.name == INTERPN), None)
+        if ev is None:
+            continue
+        comps = _point_elements(ev.arg(2, 'xi'))
+        if comps is None:
+            continue
+        # constructor paths compatible with this call path: evaluate both path conditions over the number of masses
+        compat = []
+        for d, (roles, sts) in dims_seen.items():
+            for ist in sts:
+                verdict = _compatible(st, ist)
+                if verdict is not False:
+                    compat.append((d, verdict))
+        sure = [d for d, vd in compat if vd is True]
+        maybe = [d for d, vd in compat if vd is None]
+        if any(d != len(comps) for d in sure):
+            ctx.ob('C06-R7', ic, f'query point {canon(ev.arg(2, "xi"))[:50]} against the grid', False,
+                   f'a {len(comps)}-component query point is interpolated over a {next(d for d in sure if d != len(comps))}-axis grid',
+                   line=ev.line)
+        elif any(d != len(comps) for d in maybe):
+            ctx.undecided('C06-R7', ic, canon(ev.arg(2, 'xi'))[:60], 'cannot relate the branch of __call__ to the branch of the constructor')
+        else:
+            ctx.ob('C06-R7', ic, f'query point has {len(comps)} component(s) where the grid has {len(comps)} axis/axes', True,
+                   'branches of __call__ and of the constructor agree')
+
+
+def _compatible(call_st, init_st):
+    """can the __call__ path be taken on an object the constructor path built?  True / False / None (unknown).
+    Attributes of self in the call's path condition are replaced by what the constructor stored; what remains is
+    evaluated over the possible lengths of the coordinate lists."""
+    heap = init_st.heap
+
+    class Sub(ast.NodeTransformer):
+        def visit_Attribute(self, n):
+            t = canon(n)
+            if t in heap and isinstance(heap[t], ast.AST):
+                return clone(heap[t])
+            return self.generic_visit(n)
+    conds = [(simp_deep(Sub().visit(clone(c))), p) for c, p in call_st.pc if not is_sym(c, '_in_loop')]
+    conds += [(c, p) for c, p in init_st.pc if not is_sym(c, '_in_loop') and not is_sym(c, '_raised')]
+    # unknowns: len(<expr>) atoms
+    atoms = sorted({canon(n) for c, _ in conds for n in ast.walk(c)
+                    if isinstance(n, ast.Call) and canon(n.func) == 'len' and len(n.args) == 1})
+    if len(atoms) > 3:
+        return None
+    import itertools
+    any_unknown = False
+    for combo in itertools.product((1, 2, 3), repeat=len(atoms)):
+        val = dict(zip(atoms, combo))
+
+        def atom(n):
+            if isinstance(n, ast.Call) and canon(n) in val:
+                return val[canon(n)]
+            return NotImplemented
+        ok = True
+        for c, p in conds:
+            try:
+                if bool(ceval(c, {}, atom)) != p:
+                    ok = False
+                    break
+            except Exception:
+                # a condition about something else (e.g. the duplicate check): does not tell the branches apart
+                if any(canon(n) in val for n in ast.walk(c) if isinstance(n, ast.Call)) or 'self.' in canon(c):
+                    any_unknown = True
+                continue
+        if ok and not any_unknown:
+            return True
+    return None if any_unknown else False
+
+
+def simp_deep(e):
+    """simp applied bottom-up"""
+    if not isinstance(e, ast.AST):
+        return e
+    for nme, val in ast.iter_fields(e):
+        if isinstance(val, ast.expr):
+            setattr(e, nme, simp_deep(val))
+        elif isinstance(val, list):
+            setattr(e, nme, [simp_deep(x) if isinstance(x, ast.expr) else x for x in val])
+    return simp(e) if isinstance(e, ast.expr) else e
+
+
+# ======================================================================================================
+# R5 -- PTF file -> records -> model table
+# ======================================================================================================
+# oracle: the BADA PTF table layout "FL | CRUISE | CLIMB | DESCENT" and the numbers inside each block, in file order
+PTF_BLOCKS = {'cruise': (1, ['tas', 'fuel_flow_low', 'fuel_flow_nom', 'fuel_flow_high']),
+              'climb': (2, ['tas', 'rocd_low', 'rocd_nom', 'rocd_high', 'fuel_flow_nom']),
+              'descent': (3, ['tas', 'rocd_nom', 'fuel_flow_nom'])}
+# unit of each quantity in the PTF file -> SI: factor as an expression over units.py
+PTF_UNIT = {'tas': 'KNOTS_TO_MPS', 'rocd': 'FPM_TO_MPS', 'fuel_flow': '1 / MINUTES_TO_SECONDS'}
+MASS_SUFFIX = {'low_mass': 'low', 'nominal_mass': 'nom', 'high_mass': 'high'}
+# two well-formed table rows (all blocks present; flight level 0 is a legitimate level) and their numbers
+PTF_SAMPLES = [
+    ('  0 |  272    59.34 63.66 67.27 |  157    5111  3814  2914   86.17  |  144    764   25.85', 0,
+     {'cruise': ['272', '59.34', '63.66', '67.27'], 'climb': ['157', '5111', '3814', '2914', '86.17'], 'descent': ['144', '764', '25.85']}),
+    ('340 |  447    36.2  40.71 46.05 |  451     2220  1470   860   71.3   |  447   3180    9.   ', 340,
+     {'cruise': ['447', '36.2', '40.71', '46.05'], 'climb': ['451', '2220', '1470', '860', '71.3'], 'descent': ['447', '3180', '9.']}),
+    ('510 |  459    33.01 38.8  44.4  |  459     1210   640   130   66.02  |  459   2960    8.15', 510,
+     {'cruise': ['459', '33.01', '38.8', '44.4'], 'climb': ['459', '1210', '640', '130', '66.02'], 'descent': ['459', '2960', '8.15']}),
+]
+
+
+def _phase_of_record(prog, pt, ptf_cls):
+    """record class name -> phase field of PTFData whose list holds it (from the annotations list[Record])"""
+    out = {}
+    for fld, ann in ptf_cls.annotated_fields().items():
+        if isinstance(ann, ast.Subscript) and canon(ann.value) in ('list', 'List', 'Sequence', 'tuple'):
+            el = ann.slice.elts[0] if isinstance(ann.slice, ast.Tuple) else ann.slice
+            k = prog.resolve_class_expr(pt, el)
+            if k is not None:
+                out[k.name] = fld
+    return out
+
+
+def rule_ptf(ctx):
+    """R5.  (a) build_performance_table: every generated row gives each column (as named by the column list that is
+    returned with the rows) a value of that column's role, the mass-dependent columns of the mass the row is for;
+    every number of a phase record is emitted, no mass twice.  (b) PTFData.load: each record field is the number at
+    its own position of its own block, converted with the factor its unit demands (algebra over units.py), descent
+    ROCD negated; a well-formed row -- including flight level 0 -- reaches all three record constructors."""
+    prog = ctx.prog
+    mk = prog.module(MK)
+    bt = mk.functions.get('build_performance_table') or prog.resolve_name(mk, 'build_performance_table')
+    if not isinstance(bt, FunctionInfo):
+        bt = mk.func('build_performance_table')
+    prog.consulted.add(bt.file)
+    pt = prog.module(PTF)
+    ptf_cls = pt.cls('PTFData')
+    phase_of = _phase_of_record(prog, pt, ptf_cls)
+    rec_fields = {ph: list(pt.cls(rc).annotated_fields()) for rc, ph in phase_of.items()}
+    if set(rec_fields) != set(PTF_BLOCKS):
+        ctx.undecided('C06-R5', (pt.relpath, 'PTFData'), f'phases {sorted(rec_fields)}', 'phase record lists of PTFData not recognised')
+    consts = _units_consts(prog)
+    _rule_ptf_table(ctx, bt, rec_fields)
+    _rule_ptf_load(ctx, pt, ptf_cls, phase_of, consts)
+
+
+def _rule_ptf_table(ctx, bt, rec_fields):
+    prog = ctx.prog
+    eng = Engine(prog)
+    ptf_p = bt.params[0] if bt.params else 'ptf'
+    try:
+        outs = eng.run(bt, args={ptf_p: _name('ptf')})
+    except Undecided as ex:
+        ctx.undecided('C06-R5', bt, bt.name, str(ex))
+    rets = [(v, st) for k, v, st in outs if k == 'return']
+    if not rets:
+        ctx.undecided('C06-R5', bt, bt.name, 'no returning path')
+    # the returned mapping
+    colsets, datas = set(), []
+    for v, st in rets:
+        if not isinstance(v, ast.Dict):
+            ctx.undecided('C06-R5', bt, canon(v)[:80], 'the table is not returned as a literal mapping with cols / data')
+        d = {k.value: val for k, val in zip(v.keys, v.values) if isinstance(k, ast.Constant)}
+        if 'cols' not in d or 'data' not in d:
+            ctx.undecided('C06-R5', bt, canon(v)[:80], 'returned mapping has no cols / data')
+        cols = eng.const_table(d['cols'], Fr(bt, None, None, ()))
+        if not (isinstance(cols, (ast.List, ast.Tuple)) and all(isinstance(x, ast.Constant) and isinstance(x.value, str) for x in cols.elts)):
+            ctx.undecided('C06-R5', bt, canon(d['cols'])[:80], 'column list is not a literal list of names')
+        colsets.add(tuple(x.value for x in cols.elts))
+        datas.append((d['data'], st))
+    if len(colsets) != 1:
+        ctx.undecided('C06-R5', bt, str(sorted(colsets))[:80], 'column list differs between paths')
+    colnames = list(next(iter(colsets)))
+    need = ['fl', 'mass', 'tas', 'rocd', 'fuel_flow']
+    ok = sorted(colnames) == sorted(need)
+    ctx.ob('C06-R5', bt, f'columns {colnames}', ok, 'the five columns the model table needs' if ok else
+           f'the generated table does not have exactly the columns {need}', nontrivial=False)
+    if not ok:
+        return
+    # rows: list displays appended / extended into the accumulator that is returned, or a literal / comprehension
+    rows = {}       # canon -> (phase iter, elements, line, loop tags)
+
+    def add_row(r, loops, line):
+        if isinstance(r, (ast.List, ast.Tuple)):
+            rows.setdefault(canon(r), (r, loops, line))
+            return True
+        return False
+    acc_names = set()
+    for dv, st in datas:
+        core = dv
+        while isinstance(core, ast.Call) and canon(core.func) in ('sorted', 'list', 'tuple') and core.args:
+            core = core.args[0]
+        if is_sym(core, '_acc'):
+            acc_names.add(core.args[0].value)
+        elif isinstance(core, ast.List):
+            for r in core.elts:
+                if not add_row(r, (), getattr(dv, 'lineno', bt.node.lineno)):
+                    ctx.undecided('C06-R5', bt, canon(r)[:80], 'row is not a literal list')
+        elif isinstance(core, (ast.ListComp, ast.BinOp)):
+            acc_names |= {n.args[0].value for n in ast.walk(core) if is_sym(n, '_acc')}
+            _rows_of_comprehension(ctx, bt, core, add_row)
+        else:
+            ctx.undecided('C06-R5', bt, canon(dv)[:80], 'the data rows that are returned are not the accumulated rows')
+        for e in st.events:
+            if e.kind == 'call' and e.name in ('.append', '.extend') and isinstance(e.node.func, ast.Attribute) \
+                    and isinstance(e.node.func.value, ast.Name) and e.args:
+                nme = e.node.func.value.id
+                loops = tuple(t for t, _ in e.loops)
+                if e.name == '.append':
+                    if isinstance(e.args[0], (ast.List, ast.Tuple)):
+                        rows.setdefault(canon(e.args[0]) + '@' + nme, (e.args[0], loops, e.line, nme))
+                elif isinstance(e.args[0], (ast.List, ast.Tuple)):
+                    for r in e.args[0].elts:
+                        if isinstance(r, (ast.List, ast.Tuple)):
+                            rows.setdefault(canon(r) + '@' + nme, (r, loops, e.line, nme))
+                elif isinstance(e.args[0], ast.ListComp):
+                    _rows_of_comprehension(ctx, bt, e.args[0], lambda r, lp, ln, nme=nme: (
+                        rows.setdefault(canon(r) + '@' + nme, (r, lp, ln, nme)), isinstance(r, (ast.List, ast.Tuple)))[1])
+    rows = {k: v for k, v in rows.items() if len(v) < 4 or v[3] in acc_names or not acc_names}
+    ctx.floor('C06-R5', len(rows), 7, 'generated table rows')
+    masses_per_phase = {}
+    used_fields = {}
+    for r, loops, line, *_ in rows.values():
+        elts = list(r.elts)
+        # the phase is that of the record list the row's record comes from
+        rec = next((n for x in elts for n in ast.walk(x) if is_sym(n, '_each')), None)
+        phase = None
+        if rec is not None:
+            src = rec.args[0]
+            while isinstance(src, ast.Call) and canon(src.func) in ('sorted', 'list', 'reversed', 'tuple') and src.args:
+                src = src.args[0]
+            if isinstance(src, ast.Attribute) and canon(src.value) == 'ptf':
+                phase = src.attr
+        if phase not in rec_fields:
+            ctx.undecided('C06-R5', bt, canon(r)[:80], 'row does not come from one of the phase record lists of the PTF data')
+        if len(elts) != len(colnames):
+            ctx.ob('C06-R5', bt, f'{phase} row has {len(elts)} entries', False,
+                   f'row length differs from the column list ({len(colnames)} columns)', line=line)
+            continue
+        elts = [eng.const_table(x, Fr(bt, None, None, ())) if isinstance(x, ast.Name) else x for x in elts]
+        by_col = dict(zip(colnames, elts))
+        problems = []
+
+        def rec_attr(x):
+            """field of the phase record read by x, or None"""
+            c = _col_of(x)
+            return c[1] if c is not None and (is_sym(c[0], '_each')) else None
+        def bare(x):
+            while isinstance(x, ast.Call) and canon(x.func) in ('float', 'int') and len(x.args) == 1 and not x.keywords:
+                x = x.args[0]
+            return x
+        by_col = {k: bare(v) for k, v in by_col.items()}
+        mv = by_col['mass']
+        mass_attr = mv.attr if isinstance(mv, ast.Attribute) and canon(mv.value) == 'ptf' else None
+        msuf = MASS_SUFFIX.get(mass_attr)
+        if msuf is None:
+            if mass_attr is None and rec_attr(mv) is None and const_value(mv) is None:
+                ctx.undecided('C06-R5', bt, canon(mv)[:80], 'value of the mass column not recognised')
+            problems.append(f'mass column receives {canon(mv).replace(canon(rec), "r")[:40]}, not one of the PTF mass levels')
+        masses_per_phase.setdefault(phase, []).append(msuf)
+        for q in ('fl', 'tas'):
+            a = rec_attr(by_col[q])
+            if a is None and const_value(by_col[q]) is None and not (isinstance(by_col[q], ast.Attribute) and canon(by_col[q].value) == 'ptf'):
+                ctx.undecided('C06-R5', bt, canon(by_col[q])[:80], f'value of the {q} column not recognised')
+            if a != q:
+                problems.append(f'{q} column receives {canon(by_col[q]).replace(canon(rec), "r")[:40]}')
+            else:
+                used_fields.setdefault(phase, set()).add(a)
+        for q in ('rocd', 'fuel_flow'):
+            v = by_col[q]
+            has_q = [f for f in rec_fields[phase] if f.startswith(q + '_')]
+            if const_value(v) is not None or isinstance(v, ast.Constant):
+                if has_q or not (q == 'rocd' and const_value(v) == 0):
+                    problems.append(f'{q} column receives constant {const_value(v)}' + (f' although the {phase} record has {has_q[0]}' if has_q else ''))
+                continue
+            a = rec_attr(v)
+            if a is None and not (isinstance(v, ast.Attribute) and canon(v.value) == 'ptf'):
+                ctx.undecided('C06-R5', bt, canon(v)[:80], f'value of the {q} column not recognised')
+            if a is None or not a.startswith(q + '_'):
+                problems.append(f'{q} column receives {canon(v).replace(canon(rec), "r")[:40]}')
+                continue
+            used_fields.setdefault(phase, set()).add(a)
+            s = a[len(q) + 1:]
+            if msuf and s != msuf and f'{q}_{msuf}' in rec_fields[phase]:
+                problems.append(f'{mass_attr} row takes {a} although the {phase} record has {q}_{msuf}')
+        shown = ', '.join(canon(x).replace(canon(rec), 'r') for x in elts)
+        ctx.ob('C06-R5', bt, f'{phase} row [{shown}]', not problems,
+               'every column receives its own quantity, mass-dependent ones of the row\'s mass' if not problems else '; '.join(problems), line=line)
+    for ph, flds in rec_fields.items():
+        sufs = sorted({f.rsplit('_', 1)[1] for f in flds if f.rsplit('_', 1)[-1] in ('low', 'nom', 'high')})
+        got = masses_per_phase.get(ph, [])
+        ok = sorted(x for x in got if x) == sufs and len(got) == len(sufs)
+        ctx.ob('C06-R5', bt, f'{ph} rows for masses {got}', ok, 'one row per mass level the phase has data for' if ok else
+               f'{ph} rows are missing or duplicated for some mass (the PTF {ph} block has data for {sufs})')
+        unused = [f for f in flds if f not in used_fields.get(ph, set())]
+        ctx.ob('C06-R5', bt, f'{ph} record fields emitted', not unused, 'every number of the record reaches the table' if not unused else
+               f'{unused} of the {ph} record never reach the generated table', nontrivial=False)
+
+
+def _rows_of_comprehension(ctx, bt, core, add_row):
+    """rows written as [[...] for r in ptf.phase] (+ ...): the element with the loop variable made an `_each`"""
+    parts = []
+
+    def split(x):
+        if isinstance(x, ast.BinOp) and isinstance(x.op, ast.Add):
+            split(x.left)
+            split(x.right)
+        else:
+            parts.append(x)
+    split(core)
+    for c in parts:
+        if isinstance(c, ast.List):
+            for r in c.elts:
+                add_row(r, (), getattr(c, 'lineno', 0))
+            continue
+        if is_sym(c, '_acc'):
+            continue            # its rows are the append / extend events of that accumulator
+        if not (isinstance(c, ast.ListComp) and len(c.generators) >= 1 and isinstance(c.generators[0].target, ast.Name)
+                and not c.generators[0].ifs):
+            ctx.undecided('C06-R5', bt, canon(c)[:80], 'row source not recognised')
+        g = c.generators[0]
+        each = _call('_each', g.iter)
+
+        class S(ast.NodeTransformer):
+            def visit_Name(self, n):
+                return clone(each) if n.id == g.target.id else n
+        elt = S().visit(clone(c.elt))
+        if len(c.generators) == 1:
+            if isinstance(elt, (ast.List, ast.Tuple)) and elt.elts and all(isinstance(x, (ast.List, ast.Tuple)) for x in elt.elts) and False:
+                pass
+            if not add_row(elt, (canon(g.iter),), getattr(c, 'lineno', 0)):
+                ctx.undecided('C06-R5', bt, canon(elt)[:80], 'row is not a literal list')
+        else:
+            ctx.undecided('C06-R5', bt, canon(c)[:80], 'nested comprehension of rows')
+
+
+def _rule_ptf_load(ctx, pt, ptf_cls, phase_of, consts):
+    prog = ctx.prog
+    ld = ptf_cls.find_method('load')
+    if ld is None:
+        ctx.undecided('C06-R5', (pt.relpath, 'PTFData'), 'load', 'loader not found')
+    eng = Engine(prog, cap=30000)
+    try:
+        outs = eng.run(ld, self_cls=ptf_cls)
+    except Undecided as ex:
+        ctx.undecided('C06-R5', ld, 'load', str(ex))
+    rec_classes = {rc: ph for rc, ph in phase_of.items()}
+    # constructor events of the three record classes, one per (site, path condition about the row)
+    sites = {}
+    for kind, v, st in outs:
+        for e in st.events:
+            if e.kind == 'ctor' and e.cls.name in rec_classes and e.cls.module is pt:
+                sites.setdefault((e.cls.name, e.line, canon(e.value)), []).append(e)
+    nconv = 0
+    reached = {ph: [] for ph in PTF_BLOCKS}
+    # the row being parsed: the loop element of the innermost loop the constructors sit in
+    for (cname, line, _), evs in sorted(sites.items(), key=lambda kv: kv[0][1]):
+        e = evs[0]
+        ph = rec_classes[e.cls.name]
+        block, order = PTF_BLOCKS[ph]
+        flds = list(e.cls.annotated_fields())
+        given = dict(zip(flds, e.args))
+        given.update(e.kwargs)
+        rows = [n for val in given.values() for n in ast.walk(val) if is_sym(n, '_each')]
+        if not rows:
+            ctx.undecided('C06-R5', ld, canon(e.value)[:80], 'record is not built from a line of the file')
+        row = max(rows, key=lambda n: len(canon(n)))
+        rowt = canon(row)
+
+        def on_sample(expr, text, row=row, rowt=rowt):
+            def atom(n):
+                if is_sym(n, '_each') and canon(n) == rowt:
+                    return text
+                if isinstance(n, ast.Name):
+                    # a module-level compiled pattern / constant of the parser module
+                    r = prog.resolve_name(pt, n.id)
+                    if isinstance(r, tuple) and r[0] == 'const':
+                        return ceval(r[1].constants[r[2]], {})
+                return NotImplemented
+            return ceval(expr, {}, atom)
+        for f in flds:
+            v = given.get(f)
+            if v is None:
+                ctx.ob('C06-R5', ld, f'{cname}.{f}', False, f'{f} is not set', line=line)
+                continue
+            if f == 'fl':
+                bad = None
+                for text, fl, _ in PTF_SAMPLES:
+                    try:
+                        got = on_sample(v, text)
+                    except Unknown as ex:
+                        ctx.undecided('C06-R5', ld, canon(v)[:80], f'flight level of the row cannot be evaluated on a sample row ({ex})')
+                    except Exception as ex:
+                        got = f'{type(ex).__name__}'
+                    if got != fl or isinstance(got, bool):
+                        bad = (fl, got)
+                ctx.ob('C06-R5', ld, f'{cname}.fl = first column of the row', bad is None,
+                       'row flight level' if bad is None else f'a row of flight level {bad[0]} is recorded as {bad[1]!r}', line=line, nontrivial=False)
+                continue
+            q = next((x for x in PTF_UNIT if f.startswith(x)), None)
+            if q is None or f not in order:
+                ctx.undecided('C06-R5', ld, f'{cname}.{f}', 'record field without a PTF column')
+            nconv += 1
+            want_idx = order.index(f)
+            want_neg = ph == 'descent' and q == 'rocd'
+            nf = _nf(v, consts)
+            factor = _nf(ast.parse(PTF_UNIT[q], mode='eval').body, consts)
+            why = None
+            ok = False
+            if nf is None or len(nf.atoms()) > 1:
+                ctx.undecided('C06-R5', ld, canon(v)[:80], f'{f} is not written as one number of the row times a constant')
+            if not nf.atoms():
+                why = f'{f} is a constant, not a number of the row'
+            else:
+                a = next(iter(nf.atoms()))
+                c = _coefficient(nf, a)
+                if c is None:
+                    why = f'{f} is not proportional to the number read'
+                else:
+                    if abs(c) != factor.const():
+                        why = f'{f} is not converted with {PTF_UNIT[q]} (factor {float(c):.6g}, expected {float(factor.const()):.6g})'
+                    elif (c < 0) != want_neg:
+                        why = 'descent ROCD sign convention broken' if want_neg else f'{f} is negated'
+                    else:
+                        # which token of which block: evaluate the token on the sample rows
+                        tok = ast.parse(a, mode='eval').body
+                        for text, _, nums in PTF_SAMPLES:
+                            try:
+                                got = on_sample(tok, text)
+                            except Unknown as ex:
+                                ctx.undecided('C06-R5', ld, a[:80], f'cannot evaluate the token on a sample row ({ex})')
+                            except Exception as ex:
+                                got = type(ex).__name__
+                            def same(g, x):
+                                if isinstance(g, str):
+                                    return g.strip() == x
+                                return isinstance(g, (int, float)) and not isinstance(g, bool) and float(g) == float(x)
+                            if not same(got, nums[ph][want_idx]):
+                                where = next((f'number {i} of the {p2} block' for p2, ns in nums.items() for i, x in enumerate(ns)
+                                              if same(got, x)), repr(got))
+                                why = f'{f} reads {where}, expected number {want_idx} of the {ph} block'
+                                break
+                        ok = why is None
+            ctx.ob('C06-R5', ld, f'{cname}.{f} = {canon(v).replace(rowt, "line")[:70]}', ok,
+                   f'number {want_idx} of the {ph} block × {PTF_UNIT[q]}' + (' negated (descent)' if want_neg else '') if ok else why, line=line)
+        # reachability for well-formed rows
+        for text, fl, _ in PTF_SAMPLES:
+            best = None
+            for ev in evs:
+                fails = []
+                for cond, pol in ev.pc:
+                    c2 = cond.args[1] if is_sym(cond, '_in_loop') else cond
+                    if not any(is_sym(n, '_each') and canon(n) == rowt for n in ast.walk(c2)):
+                        continue
+                    if any(is_sym(n, '_loopvar') or is_sym(n, '_maybe') for n in ast.walk(c2)):
+                        continue
+                    try:
+                        val = bool(on_sample(c2, text))
+                    except Unknown:
+                        continue
+                    except Exception:
+                        val = None
+                    if val is not pol:
+                        fails.append((c2, pol))
+                if best is None or len(fails) < len(best):
+                    best = fails
+                if not fails:
+                    break
+            reached[ph].append((fl, best, line))
+    ctx.floor('C06-R5/conv', nconv, 12, 'PTF field conversions')
+    for ph in PTF_BLOCKS:
+        if not reached[ph]:
+            ctx.ob('C06-R5', ld, f'{ph} records are built', False, f'no {ph} record is constructed by the loader')
+            continue
+        bad = [(fl, fails, line) for fl, fails, line in reached[ph] if fails]
+        ok = not bad
+        ctx.ob('C06-R5', ld, f'a well-formed table row reaches the {ph} record (flight levels {sorted({fl for fl, _, _ in reached[ph]})})', ok,
+               'rows are skipped only when they have no flight level / too few columns' if ok else
+               (f'a data row of flight level {bad[0][0]} is skipped: the record is only built when '
+                f'`{_show_row(bad[0][1][0][0])[:90]}` is {"true" if bad[0][1][0][1] else "false"}, which it is not for this row'
+                + (' (a truthiness test on the flight level drops level 0)' if bad[0][0] == 0 else '')),
+               line=(bad[0][2] if bad else ld.node.lineno))
+
+
+def _show_row(e) -> str:
+    """text of an expression over the current file line, the loop element written as `line`"""
+    class T(ast.NodeTransformer):
+        def visit_Call(self, n):
+            if is_sym(n, '_each'):
+                return _name('line')
+            return self.generic_visit(n)
+    return canon(T().visit(clone(e)))
 
 
 def run(ctx):
